@@ -9,6 +9,7 @@
    PART 12- C14. *)
 From PB Require Import Peripheral DpMaster DpRun DpOracle DpStepProofs C09Proofs C14Proofs C14History DpHistory.
 From PB Require Import C04Proofs.
+From Coq Require Import Sorted.
 
 (* PART 1: ghost layer at the level of the DP master model *)
 
@@ -418,13 +419,16 @@ Lemma rx_ghost : forall pa m a t m' log gs da,
     slot m' i = Some p1 /\ (forall j, j <> i -> slot m' j = slot m j) /\ mask m' = mask m /\
     dm_events m' = mkEvents cc (opt_pair (mkHandle i a) ev) /\ dm_op m' = dm_op m /\
     Inv pa a (pe_opts p) p (gs i) /\ gh_out (gs i) = true /\
-    GInv pa m' (gupd gs i (gstep (gs i) (WReply t ev))) None.
+    GInv pa m' (gupd gs i (gstep (gs i) (WReply t ev))) None /\
+    exists r, pos_rem m = i :: r /\
+      if cc then dm_cycle m' = CyCompleted /\ r = []
+      else r <> [] /\ pos_rem m' = r /\ dm_cycle m' <> CyCompleted.
 Proof.
   intros pa m a t m' log gs da Hmax G H.
   destruct (rx_cases _ _ _ _ _ H) as (index & hd & p & p1 & ev & m2 & cc & Hc & Hg & Ha & Hrx & Hi & Hm & Hlog).
   destruct (cur_slot _ _ _ _ Hc Hg) as (rr & Hr & Hsl & Hadr).
   destruct (put_cur_facts m hd p p1 Hsl) as (Hmk & Hcy & Hpr & _). rewrite Hc in Hcy. rewrite Hr in Hpr.
-  destruct (increment_pos _ _ _ _ _ _ Hcy Hpr Hi) as (Hsl2 & Hop2 & _).
+  destruct (increment_pos _ _ _ _ _ _ Hcy Hpr Hi) as (Hsl2 & Hop2 & _ & _ & Hcyc).
   destruct (gi_pend _ _ _ _ G da eq_refl) as (i' & p' & Hc' & Hs' & Ha' & Ho').
   assert (Ei : i' = hd_index hd) by (apply (cur_is_fun m); [exact Hc'|exists rr; exact Hr]). subst i'.
   rewrite Hsl in Hs'. inversion Hs'; subst p'. clear Hs'.
@@ -445,6 +449,9 @@ Proof.
   split; [rewrite Hm; cbn [dm_events set_events]; rewrite Ha, <- Hadr; destruct hd; reflexivity|].
   split; [rewrite Hm; cbn; rewrite Hop2; reflexivity|].
   split; [rewrite Ha; exact I|]. split; [exact Ho'|].
+  split; [|exists rr; split; [exact Hr|]; rewrite Hm; destruct cc;
+            [exact Hcyc|destruct Hcyc as (H1 & H2 & b & H3); split; [exact H1|]; split; [exact H2|];
+             cbn [dm_cycle set_events]; rewrite H3; discriminate]].
   constructor.
   - intros j q Hj. rewrite Hslots in Hj. unfold gupd. destruct (Nat.eqb j (hd_index hd)).
     + inversion Hj; subst q. rewrite Hap, Hop. exact I1.
@@ -1029,7 +1036,7 @@ Lemma step_env : forall s i s' t,
   env_input i = true -> model_step s i = Ok (s', t) ->
   sy_conf s' = sy_conf s /\ sy_m s' = sy_m s /\ sy_handles s' = sy_handles s /\
   exists o, t = mkStep i false o None (observe s) (dm_op (sy_m s)) /\
-            match o with OutEvents _ | OutHandle _ | OutTx _ => False | _ => True end.
+            match o with OutEvents _ | OutHandle _ | OutTx _ | OutPanic | OutHang => False | _ => True end.
 Proof.
   intros s i s' t Hi H. unfold model_step in H.
   destruct i; try discriminate Hi; cbn [run_in] in H.
@@ -2177,7 +2184,7 @@ Proof.
     destruct (dp_receive_reply_g (sy_m s) addr tg) as [[m1' log]| |] eqn:Hg; cbn [drop_log] in Hrx; try discriminate Hrx.
     inversion Hrx; subst m1'. clear Hrx.
     destruct (rx_ghost _ _ _ _ _ _ _ _ Hmax G Hg) as
-      (i & p & p1 & ev & cc & _ & Hcur & Hsl & Ha & _ & Hp & Hsl' & Hoth & Hmk & Hev & Hop' & _ & Hout & G').
+      (i & p & p1 & ev & cc & _ & Hcur & Hsl & Ha & _ & Hp & Hsl' & Hoth & Hmk & Hev & Hop' & _ & Hout & G' & _).
     cbn [sy_m set_m sy_handles ts_in ts_obs ts_op dm_op set_events].
     rewrite hs_next_other by (intros k E; discriminate E). rewrite Hv. cbn [pend_next_v].
     exists (gupd gs i (gstep (gs i) (WReply tg ev))).
@@ -3397,3 +3404,1322 @@ Proof.
 Qed.
 
 End C04.
+
+(* PART 12: C14, preliminaries -- the slots visited by one call of the slot loop *)
+
+(* ------------------------------------------------------------------ occupied slots come in increasing order *)
+
+Lemma occupied_from_in : forall l k j, In j (occupied_from l k) <->
+  (k <= j)%nat /\ exists p, nth_error l (j - k) = Some (Some p).
+Proof.
+  induction l as [|x l IH]; intros k j; cbn [occupied_from].
+  - split; [intros []|]. intros (_ & p & H). destruct (j - k)%nat; discriminate H.
+  - destruct x as [q|]; cbn [In]; rewrite IH.
+    + split.
+      * intros [<-|(Hle & p & Hp)].
+        -- split; [lia|]. exists q. rewrite Nat.sub_diag. reflexivity.
+        -- split; [lia|]. exists p. replace (j - k)%nat with (S (j - S k)) by lia. exact Hp.
+      * intros (Hle & p & Hp). destruct (Nat.eq_dec k j) as [->|Hne]; [left; reflexivity|right].
+        split; [lia|]. exists p. replace (j - k)%nat with (S (j - S k)) in Hp by lia. exact Hp.
+    + split.
+      * intros (Hle & p & Hp). split; [lia|]. exists p. replace (j - k)%nat with (S (j - S k)) by lia. exact Hp.
+      * intros (Hle & p & Hp). destruct (Nat.eq_dec k j) as [->|Hne].
+        -- rewrite Nat.sub_diag in Hp. discriminate Hp.
+        -- split; [lia|]. exists p. replace (j - k)%nat with (S (j - S k)) in Hp by lia. exact Hp.
+Qed.
+
+Lemma occupied_from_sorted : forall l k, StronglySorted lt (occupied_from l k).
+Proof.
+  induction l as [|x l IH]; intro k; cbn [occupied_from]; [constructor|].
+  destruct x as [q|]; [|apply IH]. constructor; [apply IH|].
+  apply Forall_forall. intros j Hj. apply occupied_from_in in Hj. lia.
+Qed.
+
+Lemma occupied_in_slot : forall m j, In j (occupied m) <-> exists p, slot m j = Some p.
+Proof.
+  intros m j. unfold occupied. rewrite occupied_from_in. rewrite Nat.sub_0_r. unfold slot. split.
+  - intros (_ & p & Hp). exists p. rewrite Hp. reflexivity.
+  - intros (p & Hp). split; [lia|]. exists p. destruct (nth_error (dm_slots m) j) as [[q|]|]; inversion Hp; reflexivity.
+Qed.
+
+Lemma pos_rem_sorted : forall m, StronglySorted lt (pos_rem m).
+Proof. intro m. unfold pos_rem. destruct (dm_cycle m); apply occupied_from_sorted. Qed.
+
+Lemma pos_rem_occ : forall m j, In j (pos_rem m) -> exists p, slot m j = Some p.
+Proof.
+  intros m j H. unfold pos_rem in H. destruct (dm_cycle m) as [i|].
+  - apply occupied_from_in in H. destruct H as (Hle & p & Hp). rewrite nth_error_skipn' in Hp.
+    replace (i + (j - i))%nat with j in Hp by lia. exists p. unfold slot. rewrite Hp. reflexivity.
+  - apply occupied_in_slot. exact H.
+Qed.
+
+(* occupied slots that are not in the rest of the pass lie before it *)
+Lemma pos_rem_done : forall m i j p, slot m i = Some p -> ~ In i (pos_rem m) -> In j (pos_rem m) -> (i < j)%nat.
+Proof.
+  intros m i j p Hs Hn Hj. unfold pos_rem in *. destruct (dm_cycle m) as [k|].
+  - apply occupied_from_in in Hj. destruct Hj as (Hle & _).
+    destruct (Nat.lt_ge_cases i k) as [Hlt|Hge]; [lia|]. exfalso. apply Hn. apply occupied_from_in.
+    split; [exact Hge|]. exists p. rewrite nth_error_skipn'. replace (k + (i - k))%nat with i by lia.
+    unfold slot in Hs. destruct (nth_error (dm_slots m) i) as [[q|]|]; inversion Hs; reflexivity.
+  - exfalso. apply Hn. apply occupied_in_slot. exists p. exact Hs.
+Qed.
+
+Lemma sorted_app : forall (a b : list nat), StronglySorted lt (a ++ b) ->
+  StronglySorted lt b /\ (forall x y, In x a -> In y b -> (x < y)%nat) /\ (forall x, In x a -> ~ In x b).
+Proof.
+  induction a as [|h a IH]; intros b H; cbn [app] in H.
+  - split; [exact H|]. split; intros x; intros; contradiction.
+  - inversion H as [|? ? Hs Hf]; subst. destruct (IH _ Hs) as (H1 & H2 & H3).
+    rewrite Forall_forall in Hf.
+    split; [exact H1|]. split.
+    + intros x y [<-|Hx] Hy; [apply Hf; apply in_or_app; right; exact Hy|apply H2; assumption].
+    + intros x [<-|Hx] Hb; [|apply (H3 x Hx Hb)].
+      assert (X : (h < h)%nat) by (apply Hf; apply in_or_app; right; exact Hb). lia.
+Qed.
+
+Lemma sorted_head_notin : forall (i : nat) r, StronglySorted lt (i :: r) -> ~ In i r /\ forall y, In y r -> (i < y)%nat.
+Proof.
+  intros i r H. inversion H as [|? ? Hs Hf]; subst. rewrite Forall_forall in Hf. split.
+  - intro Hi. specialize (Hf _ Hi). lia.
+  - exact Hf.
+Qed.
+
+(* ------------------------------------------------------------------ the slots one call of the slot loop visits *)
+
+Section Visit.
+Variables (pa : params) (bufsize : nat).
+
+(* vis = the slots whose turn ended in this call (all silently, except possibly the last one, which raised
+   Offline); the slot that sent a request is the head of what remains *)
+Definition visit_post (m m' : dpm) (o : txout) (vis rem' : list nat) : Prop :=
+  pos_rem m = vis ++ rem' /\
+  (forall j, In j vis -> exists q q' ev, slot m j = Some q /\ slot m' j = Some q' /\
+      p_transmit pa (dm_op m) q = Ok (q', PtxSkip ev) /\
+      (ev = None \/ (ev = Some EvOffline /\ ev_peripheral (dm_events m') = Some (mkHandle j (pe_addr q), EvOffline)))) /\
+  (o <> None -> exists js r q q' h pdu, rem' = js :: r /\ slot m js = Some q /\ slot m' js = Some q' /\
+      p_transmit pa (dm_op m) q = Ok (q', PtxSend h pdu) /\
+      forall j, ~ In j vis -> j <> js -> slot m' j = slot m j) /\
+  (o = None -> forall j, ~ In j vis -> slot m' j = slot m j) /\
+  (ev_peripheral (dm_events m') = None -> forall j, In j vis -> exists q q', slot m j = Some q /\ slot m' j = Some q' /\
+      p_transmit pa (dm_op m) q = Ok (q', PtxSkip None)) /\
+  (vis = [] -> o = None -> dm_cycle m = CyCompleted \/ pos_rem m = []) /\
+  (forall hd ev, ev_peripheral (dm_events m') = Some (hd, ev) -> In (hd_index hd) vis).
+
+Lemma tx_rel_visit : forall m m' o log,
+  tx_rel pa bufsize m m' o log ->
+  forall rem', turn_entries (pos_rem m) log = Some rem' -> exists vis, visit_post m m' o vis rem'.
+Proof.
+  intros m m' o log H. induction H as
+    [m Hc|m index Hc Hg|m index hd p p1 h pdu o Hc Hg Hp Hs|m index hd p p1 ev m2 Hc Hg Hp Hi
+    |m index hd p p1 e m2 Hc Hg Hp Hi|m index hd p p1 m2 m' o log Hc Hg Hp Hi Hrel IH]; intros rem' Ht.
+  - cbn in Ht. inversion Ht; subst rem'. exists []. unfold visit_post. cbn [app].
+    split; [reflexivity|]. split; [intros j []|]. split; [intro X; now elim X|].
+    split; [intros _ j _; reflexivity|]. split; [intros _ j []|]. split; [intros _ _; left; exact Hc|].
+    intros hd ev E. discriminate E.
+  - cbn in Ht. inversion Ht; subst rem'. exists []. unfold visit_post. cbn [app].
+    split; [reflexivity|]. split; [intros j []|]. split; [intro X; now elim X|].
+    split; [intros _ j _; reflexivity|]. split; [intros _ j []|].
+    split; [intros _ _; right; unfold pos_rem; rewrite Hc; apply get_at_index_none; exact Hg|].
+    intros hd ev E. discriminate E.
+  - destruct (cur_slot _ _ _ _ Hc Hg) as (r & Hr & Hsl & Hadr).
+    rewrite Hr in Ht. cbn [turn_entries turn_entry] in Ht. rewrite Nat.eqb_refl in Ht. inversion Ht; subst rem'.
+    exists []. unfold visit_post. cbn [app]. split; [exact Hr|]. split; [intros j []|].
+    assert (Hsl' : forall j, slot (set_events (put_cur m hd p1) (mkEvents false None)) j =
+                     if Nat.eqb j (hd_index hd) then Some p1 else slot m j)
+      by (intro j; apply (put_cur_slots _ _ _ _ _ Hsl)).
+    split; [|split; [intro E; discriminate E|split; [intros _ j []|split; [intros _ E; discriminate E|intros hd0 ev0 E; discriminate E]]]].
+    intros _. exists (hd_index hd), r, p, p1, h, pdu. split; [reflexivity|]. split; [exact Hsl|].
+    split; [rewrite Hsl', Nat.eqb_refl; reflexivity|]. split; [exact Hp|].
+    intros j _ Hne. rewrite Hsl'. destruct (Nat.eqb_spec j (hd_index hd)); [contradiction|reflexivity].
+  - destruct (cur_slot _ _ _ _ Hc Hg) as (r & Hr & Hsl & Hadr).
+    destruct (put_cur_facts m hd p p1 Hsl) as (_ & Hcy & Hpr & _). rewrite Hc in Hcy. rewrite Hr in Hpr.
+    destruct (increment_pos _ _ _ _ _ _ Hcy Hpr Hi) as (Hsl2 & _ & _ & _ & _ & Hrnil). subst r.
+    rewrite Hr in Ht. cbn [turn_entries turn_entry] in Ht. rewrite Nat.eqb_refl in Ht. inversion Ht; subst rem'.
+    assert (Hsl' : forall j, slot (set_events (set_cycle m2 (CyDataExchange 0)) (mkEvents true (opt_pair hd ev))) j =
+                     if Nat.eqb j (hd_index hd) then Some p1 else slot m j).
+    { intro j. change (slot (set_events (set_cycle m2 _) _) j) with (slot m2 j).
+      rewrite (slot_slots (put_cur m hd p1) _) by exact Hsl2. apply (put_cur_slots _ _ _ _ _ Hsl). }
+    exists [hd_index hd]. unfold visit_post. split; [rewrite Hr; reflexivity|].
+    split; [|split; [intro X; now elim X|split; [|split; [|split]]]].
+    + intros j [<-|[]]. exists p, p1, ev. split; [exact Hsl|]. split; [rewrite Hsl', Nat.eqb_refl; reflexivity|].
+      split; [exact Hp|]. destruct ev as [e|]; [right|left; reflexivity].
+      pose proof (transmit_spec _ _ _ _ _ Hp) as Hts. cbn beta iota in Hts. destruct Hts as [-> _].
+      split; [reflexivity|]. cbn. rewrite <- Hadr. destruct hd; reflexivity.
+    + intros _ j Hj. rewrite Hsl'. destruct (Nat.eqb_spec j (hd_index hd)) as [->|_]; [exfalso; apply Hj; left; reflexivity|reflexivity].
+    + intros Hnone j [<-|[]]. exists p, p1. split; [exact Hsl|]. split; [rewrite Hsl', Nat.eqb_refl; reflexivity|].
+      cbn [dm_events set_events ev_peripheral] in Hnone. destruct ev; [discriminate Hnone|exact Hp].
+    + intro E. discriminate E.
+    + intros hd0 ev0 E. cbn [dm_events set_events ev_peripheral] in E. destruct ev; cbn in E; inversion E. left; reflexivity.
+  - destruct (cur_slot _ _ _ _ Hc Hg) as (r & Hr & Hsl & Hadr).
+    destruct (put_cur_facts m hd p p1 Hsl) as (_ & Hcy & Hpr & _). rewrite Hc in Hcy. rewrite Hr in Hpr.
+    destruct (increment_pos _ _ _ _ _ _ Hcy Hpr Hi) as (Hsl2 & _).
+    rewrite Hr in Ht. cbn [turn_entries turn_entry] in Ht. rewrite Nat.eqb_refl in Ht. inversion Ht; subst rem'.
+    assert (Hsl' : forall j, slot (set_events m2 (mkEvents false (Some (hd, e)))) j =
+                     if Nat.eqb j (hd_index hd) then Some p1 else slot m j).
+    { intro j. change (slot (set_events m2 _) j) with (slot m2 j).
+      rewrite (slot_slots (put_cur m hd p1) _) by exact Hsl2. apply (put_cur_slots _ _ _ _ _ Hsl). }
+    exists [hd_index hd]. unfold visit_post. split; [rewrite Hr; reflexivity|].
+    split; [|split; [intro X; now elim X|split; [|split; [|split]]]].
+    + intros j [<-|[]]. exists p, p1, (Some e). split; [exact Hsl|]. split; [rewrite Hsl', Nat.eqb_refl; reflexivity|].
+      split; [exact Hp|]. right.
+      pose proof (transmit_spec _ _ _ _ _ Hp) as Hts. cbn beta iota in Hts. destruct Hts as [-> _].
+      split; [reflexivity|]. cbn. rewrite <- Hadr. destruct hd; reflexivity.
+    + intros _ j Hj. rewrite Hsl'. destruct (Nat.eqb_spec j (hd_index hd)) as [->|_]; [exfalso; apply Hj; left; reflexivity|reflexivity].
+    + intros Hnone. cbn in Hnone. discriminate Hnone.
+    + intro E. discriminate E.
+    + intros hd0 ev0 E. cbn in E. inversion E. left; reflexivity.
+  - destruct (cur_slot _ _ _ _ Hc Hg) as (r & Hr & Hsl & Hadr).
+    destruct (put_cur_facts m hd p p1 Hsl) as (_ & Hcy & Hpr & _). rewrite Hc in Hcy. rewrite Hr in Hpr.
+    destruct (increment_pos _ _ _ _ _ _ Hcy Hpr Hi) as (Hsl2 & Hop2 & _ & _ & Hne & Hp2 & _).
+    rewrite Hr in Ht. cbn [turn_entries turn_entry] in Ht. rewrite Nat.eqb_refl in Ht.
+    rewrite <- Hp2 in Ht. destruct (IH _ Ht) as (vis & Hpos & Hv1 & Hv5 & Hv3 & Hv4 & Hv6 & Hv7).
+    assert (Hop : dm_op m2 = dm_op m) by (rewrite Hop2; reflexivity).
+    assert (Hm2 : forall j, slot m2 j = if Nat.eqb j (hd_index hd) then Some p1 else slot m j).
+    { intro j. rewrite (slot_slots (put_cur m hd p1) _) by exact Hsl2. apply (put_cur_slots _ _ _ _ _ Hsl). }
+    pose proof (pos_rem_sorted m) as Hsorted. rewrite Hr in Hsorted.
+    destruct (sorted_head_notin _ _ Hsorted) as (Hnotin & _).
+    assert (Hnv : ~ In (hd_index hd) vis /\ ~ In (hd_index hd) rem').
+    { rewrite Hp2 in Hpos. split; intro X; apply Hnotin; rewrite Hpos; apply in_or_app; [left|right]; exact X. }
+    destruct Hnv as (Hnv & Hnr).
+    assert (Hkeep : slot m' (hd_index hd) = Some p1).
+    { destruct o as [x|].
+      - destruct (Hv5 ltac:(discriminate)) as (js & r0 & q & q' & h & pdu & Erem & _ & _ & _ & Hoth).
+        rewrite Hoth; [rewrite Hm2, Nat.eqb_refl; reflexivity|exact Hnv|].
+        intro E. apply Hnr. rewrite Erem, E. left; reflexivity.
+      - rewrite (Hv3 eq_refl _ Hnv), Hm2, Nat.eqb_refl. reflexivity. }
+    exists (hd_index hd :: vis). unfold visit_post.
+    split; [rewrite Hr; rewrite Hp2 in Hpos; rewrite Hpos; reflexivity|].
+    split; [|split; [|split; [|split; [|split]]]].
+    + intros j [<-|Hj].
+      * exists p, p1, None. split; [exact Hsl|]. split; [exact Hkeep|]. split; [exact Hp|left; reflexivity].
+      * destruct (Hv1 _ Hj) as (q & q' & ev & H1 & H2 & H3 & H4). rewrite Hm2 in H1.
+        assert (Hne' : j <> hd_index hd) by (intro E; subst j; contradiction).
+        destruct (Nat.eqb_spec j (hd_index hd)); [contradiction|]. rewrite Hop in H3.
+        exists q, q', ev. auto.
+    + intros Ho. destruct (Hv5 Ho) as (js & r0 & q & q' & h & pdu & Erem & H1 & H2 & H3 & Hoth).
+      assert (Hjs : js <> hd_index hd) by (intro E; apply Hnr; rewrite Erem, E; left; reflexivity).
+      rewrite Hm2 in H1. destruct (Nat.eqb_spec js (hd_index hd)); [contradiction|]. rewrite Hop in H3.
+      exists js, r0, q, q', h, pdu. split; [exact Erem|]. split; [exact H1|]. split; [exact H2|]. split; [exact H3|].
+      intros j Hj Hne'. assert (Hne2 : j <> hd_index hd) by (intro E; apply Hj; left; symmetry; exact E).
+      rewrite Hoth; [|intro X; apply Hj; right; exact X|exact Hne'].
+      rewrite Hm2. destruct (Nat.eqb_spec j (hd_index hd)); [contradiction|reflexivity].
+    + intros Ho j Hj. assert (Hne' : j <> hd_index hd) by (intro E; apply Hj; left; symmetry; exact E).
+      assert (Hjv : ~ In j vis) by (intro X; apply Hj; right; exact X).
+      rewrite (Hv3 Ho _ Hjv), Hm2. destruct (Nat.eqb_spec j (hd_index hd)); [contradiction|reflexivity].
+    + intros Hnone j [<-|Hj].
+      * exists p, p1. auto.
+      * destruct (Hv4 Hnone _ Hj) as (q & q' & H1 & H2 & H3). rewrite Hm2 in H1.
+        assert (Hne' : j <> hd_index hd) by (intro E; subst j; contradiction).
+        destruct (Nat.eqb_spec j (hd_index hd)); [contradiction|]. rewrite Hop in H3. exists q, q'. auto.
+    + intro E. discriminate E.
+    + intros hd0 ev0 E. right. apply (Hv7 _ _ E).
+Qed.
+
+End Visit.
+
+(* PART 13: C14, c14_step with its parts named; the invariant *)
+
+Definition c14_r1 (max_retry : nat) (g : c14g) (hs : list (option handle)) (dirty : bool) (s : tstep)
+  : (list Z * option Z * nat) + Z :=
+      if dirty then
+        match view_of s with
+        | VReq da _ _ _ => inl (g14_turns g, Some da, 1%nat)
+        | VReply _ _ => inl (g14_turns g, None, 0%nat)
+        | _ => inl (g14_turns g, g14_cur g, g14_sends g)
+        end
+      else
+      match view_of s with
+      | VReq da _ _ _ =>
+          match index_of_addr hs da with
+          | None => inr 1409
+          | Some ix =>
+              if match g14_cur g with Some a => a =? da | None => false end then
+                (if Nat.ltb max_retry (g14_sends g) then inr 1408
+                 else inl (g14_turns g, Some da, S (g14_sends g)))
+              else
+                if existsb (Z.eqb da) (g14_turns g) then inr 1402 else
+                let in_order :=
+                  match g14_turns g with
+                  | [] => true
+                  | prev :: _ =>
+                      match index_of_addr hs prev with Some px => Nat.ltb px ix | None => true end
+                  end in
+                if in_order then inl (da :: g14_turns g, Some da, 1%nat) else inr 1403
+          end
+      | VReply _ _ => inl (g14_turns g, None, 0%nat)
+      | VNoTx =>
+          match ts_op s with
+          | OpStop => inl (g14_turns g, g14_cur g, g14_sends g)
+          | _ => inl (g14_turns g, None, 0%nat)
+          end
+      | _ => inl (g14_turns g, g14_cur g, g14_sends g)
+      end.
+
+Definition c14_r2 (g : c14g) (hs : list (option handle)) (turns : list Z) (s : tstep)
+  : (list (Z * lstate) * list Z) + Z :=
+          match step_event s with
+          | None => inl (g14_life g, turns)
+          | Some (a, ev) =>
+              match ts_taken s with
+              | Some {| ev_peripheral := Some (h, _) |} =>
+                  if negb (match index_of_addr hs a with Some ix => Nat.eqb ix (hd_index h) | None => false end)
+                  then inr 1407 else
+                  match l_step (alist_get LOff (g14_life g) a) ev with
+                  | None => inr 1405
+                  | Some l' =>
+                      let turns' := match ev with
+                                    | EvOffline => if existsb (Z.eqb a) turns then turns else a :: turns
+                                    | _ => turns
+                                    end in
+                      inl (alist_set (g14_life g) a l', turns')
+                  end
+              | _ => inr 1407
+              end
+          end.
+
+Definition c14_consistent (life : list (Z * lstate)) : list pconf -> list (option pobs) -> bool :=
+              (fix go (ps : list pconf) (os : list (option pobs)) : bool :=
+                 match ps, os with
+                 | p :: ps', Some o :: os' =>
+                     let l := alist_get LOff life (pc_addr p) in
+                     Bool.eqb (ob_live o) (negb (lstate_eqb l LOff)) &&
+                     (negb (ob_running o) || lstate_eqb l LCfg) && go ps' os'
+                 | _ :: ps', None :: os' => go ps' os'
+                 | _, _ => true
+                 end).
+
+Definition c14_hs (g : c14g) (s : tstep) : list (option handle) :=
+  match ts_in s, ts_out s with
+  | InAdd k, OutHandle h => set_nth (g14_handles g) k (Some h)
+  | _, _ => g14_handles g
+  end.
+
+Definition c14_dirty (g : c14g) (s : tstep) : bool := match ts_in s with InAdd _ => true | _ => g14_dirty g end.
+
+Lemma c14_step_eq : forall c g i s,
+  c14_step c g i s =
+  match ts_out s with
+  | OutHang => inr 1401
+  | OutPanic => if is_callback (ts_in s) && conf_within_limits c then inr 1410 else inl g
+  | _ =>
+    let hs := c14_hs g s in
+    let dirty := c14_dirty g s in
+    match c14_r1 (Z.to_nat (p_max_retry (cf_params c))) g hs dirty s with
+    | inr code => inr code
+    | inl (turns, cur, sends) =>
+        match c14_r2 g hs turns s with
+        | inr code => inr code
+        | inl (life, turns2) =>
+            if negb (c14_consistent life (cf_periphs c) (ts_obs s)) then inr 1406 else
+            if step_cc s then
+              if dirty || forallb (fun a => existsb (Z.eqb a) turns2) (g14_due g)
+              then inl (mkC14g life hs [] None (due_after c (ts_obs s)) 0 false)
+              else inr 1404
+            else inl (mkC14g life hs turns2 cur (g14_due g) sends dirty)
+        end
+    end
+  end.
+Proof. reflexivity. Qed.
+
+(* ------------------------------------------------------------------ consistency and due lists, by position *)
+
+Lemma c14_consistent_true : forall life ps os,
+  (forall k pc o, nth_error ps k = Some pc -> nth_error os k = Some (Some o) ->
+     ob_live o = negb (lstate_eqb (alist_get LOff life (pc_addr pc)) LOff) /\
+     (ob_running o = true -> alist_get LOff life (pc_addr pc) = LCfg)) ->
+  c14_consistent life ps os = true.
+Proof.
+  intros life. induction ps as [|p ps IH]; intros os H; [reflexivity|].
+  destruct os as [|o os]; [reflexivity|].
+  assert (Hrest : c14_consistent life ps os = true).
+  { apply IH. intros k pc o0 H1 H2. apply (H (S k)); assumption. }
+  destruct o as [o|]; [|exact Hrest].
+  change (Bool.eqb (ob_live o) (negb (lstate_eqb (alist_get LOff life (pc_addr p)) LOff)) &&
+          (negb (ob_running o) || lstate_eqb (alist_get LOff life (pc_addr p)) LCfg) && c14_consistent life ps os = true).
+  destruct (H 0%nat p o eq_refl eq_refl) as (H1 & H2). rewrite Hrest, H1, Bool.eqb_reflx. cbn [andb].
+  rewrite Bool.andb_true_r. destruct (ob_running o); [rewrite (H2 eq_refl); reflexivity|reflexivity].
+Qed.
+
+Definition due_go : list pconf -> list (option pobs) -> list Z :=
+  (fix go (ps : list pconf) (os : list (option pobs)) : list Z :=
+     match ps, os with
+     | p :: ps', Some o :: os' =>
+         let rest := go ps' os' in
+         if ob_live o &&
+            match o_user_prm (pc_opts p), o_config (pc_opts p) with Some _, Some _ => true | _, _ => false end
+         then pc_addr p :: rest else rest
+     | _ :: ps', None :: os' => go ps' os'
+     | _, _ => []
+     end).
+
+Lemma due_after_eq : forall c obs, due_after c obs = due_go (cf_periphs c) obs.
+Proof. reflexivity. Qed.
+
+Lemma due_go_in : forall ps os a, In a (due_go ps os) ->
+  exists k pc o, nth_error ps k = Some pc /\ nth_error os k = Some (Some o) /\ pc_addr pc = a /\ ob_live o = true /\
+    match o_user_prm (pc_opts pc), o_config (pc_opts pc) with Some _, Some _ => true | _, _ => false end = true.
+Proof.
+  induction ps as [|p ps IH]; intros os a H; [destruct H|].
+  destruct os as [|o os]; [destruct H|].
+  destruct o as [o|].
+  - change (In a (if ob_live o && match o_user_prm (pc_opts p), o_config (pc_opts p) with Some _, Some _ => true | _, _ => false end
+                  then pc_addr p :: due_go ps os else due_go ps os)) in H.
+    destruct (ob_live o && _) eqn:E.
+    + destruct H as [<-|H].
+      * apply andb_true_iff in E. destruct E as [E1 E2]. exists 0%nat, p, o. auto.
+      * destruct (IH _ _ H) as (k & pc & o0 & H1 & H2 & H3). exists (S k), pc, o0. auto.
+    + destruct (IH _ _ H) as (k & pc & o0 & H1 & H2 & H3). exists (S k), pc, o0. auto.
+  - change (In a (due_go ps os)) in H. destruct (IH _ _ H) as (k & pc & o0 & H1 & H2 & H3). exists (S k), pc, o0. auto.
+Qed.
+
+(* ------------------------------------------------------------------ the invariant *)
+
+Definition complete (p : periph) : bool :=
+  match o_user_prm (pe_opts p), o_config (pe_opts p) with Some _, Some _ => true | _, _ => false end.
+
+(* the life-cycle automaton state fits the peripheral *)
+Definition RL (p : periph) (g : ghost) (l : lstate) : Prop := agree_b l (pe_state p) = true.
+
+Record Turns (m : dpm) (rem : list nat) (turns : list Z) (cur : option Z) (sends : nat) (due : list Z) : Prop := mkTurns {
+  tu_sorted : StronglySorted lt rem;
+  tu_occ : forall j, In j rem -> exists p, slot m j = Some p;
+  tu_done : forall i j p, slot m i = Some p -> ~ In i rem -> In j rem -> (i < j)%nat;
+  tu_t1 : forall a, In a turns -> exists i p, slot m i = Some p /\ pe_addr p = a /\
+            (~ In i rem \/ (exists r, rem = i :: r /\ cur = Some a));
+  tu_t2 : forall a, cur = Some a -> exists i r p, rem = i :: r /\ slot m i = Some p /\ pe_addr p = a /\
+            In a turns /\ Z.of_nat sends <= pe_retry p;
+  tu_due : forall a, In a due -> In a turns \/
+            exists i p, In i rem /\ slot m i = Some p /\ pe_addr p = a /\ is_live p = true /\ complete p = true;
+  tu_comp : dm_cycle m = CyCompleted -> cur = None }.
+
+Definition Ccomp (m : dpm) : Prop := dm_cycle m = CyCompleted -> occupied m <> [].
+
+(* a fresh pass: nothing visited yet *)
+Lemma turns_fresh : forall m due,
+  pos_rem m = occupied m ->
+  (forall a, In a due -> exists i p, slot m i = Some p /\ pe_addr p = a /\ is_live p = true /\ complete p = true) ->
+  Turns m (pos_rem m) [] None 0 due.
+Proof.
+  intros m due Hpr Hdue. constructor.
+  - apply pos_rem_sorted.
+  - apply pos_rem_occ.
+  - apply pos_rem_done.
+  - intros a [].
+  - intros a E. discriminate E.
+  - intros a Ha. right. destruct (Hdue a Ha) as (i & p & H1 & H2 & H3 & H4). exists i, p.
+    split; [rewrite Hpr; apply occupied_in_slot; exists p; exact H1|]. auto.
+  - reflexivity.
+Qed.
+
+(* a live peripheral with complete options always has something to send or is declared offline *)
+Lemma live_complete_not_idle : forall pa op q q',
+  p_transmit pa op q = Ok (q', PtxSkip None) -> is_live q = true -> complete q = true -> False.
+Proof.
+  intros pa op q q' H Hl Hcm. destruct (transmit_facts _ _ _ _ _ H) as (_ & _ & _ & _ & _ & _ & Hcase).
+  unfold is_live in Hl. unfold complete in Hcm. unfold idle_state in Hcase.
+  destruct Hcase as [(Hid & _)|(Hoff & _)].
+  - destruct (pe_state q); try contradiction.
+    + rewrite Hid in Hcm. discriminate Hcm.
+    + rewrite Hid in Hcm. destruct (o_user_prm (pe_opts q)); discriminate Hcm.
+  - rewrite Hoff in Hl. discriminate Hl.
+Qed.
+
+(* PART 14: C14, the relation and the steps that do not run the slot scheduler *)
+
+Lemma agree_b_public : forall l s, agree_b l s = true ->
+  pstate_is_live s = negb (lstate_eqb l LOff) /\ (pstate_is_running s = true -> l = LCfg).
+Proof. intros l s H. destruct l, s; cbn in *; try discriminate H; split; try reflexivity; intro X; try discriminate X; reflexivity. Qed.
+
+Lemma existsb_in : forall a l, In a l -> existsb (Z.eqb a) l = true.
+Proof. intros a l H. apply existsb_exists. exists a. split; [exact H|apply Z.eqb_refl]. Qed.
+
+Lemma existsb_in_iff : forall a l, existsb (Z.eqb a) l = true <-> In a l.
+Proof.
+  intros a l. split; [|apply existsb_in]. intro H. apply existsb_exists in H. destruct H as (x & Hx & E).
+  apply Z.eqb_eq in E. subst x. exact Hx.
+Qed.
+
+Section C14.
+Variable c : conf.
+Hypothesis Hc : conf_ok c.
+
+Definition Rel14 (s : sys) (gs : gmap) (pend : option Z) (g : c14g) : Prop :=
+  Base c s gs pend /\ g14_handles g = sy_handles s /\ Ccomp (sy_m s) /\
+  per_ok lstate LOff RL (sy_m s) gs (g14_life g) /\
+  (forall da, pend = Some da -> g14_cur g = Some da) /\
+  (g14_dirty g = false ->
+   Turns (sy_m s) (pos_rem (sy_m s)) (g14_turns g) (g14_cur g) (g14_sends g) (g14_due g)).
+
+(* the last part of c14_step: consistency of the observables, completed cycle *)
+Lemma c14_tail : forall s' gs' pend' (g : c14g) life' hs' turns2 cur1 sends1 dirty' t rem',
+  Base c s' gs' pend' -> hs' = sy_handles s' -> Ccomp (sy_m s') ->
+  per_ok lstate LOff RL (sy_m s') gs' life' ->
+  ts_obs t = observe s' ->
+  (forall da, pend' = Some da -> cur1 = Some da) ->
+  (step_cc t = true -> pend' = None /\ pos_rem (sy_m s') = occupied (sy_m s')) ->
+  (dirty' = false -> Turns (sy_m s') rem' turns2 cur1 sends1 (g14_due g) /\
+                     (if step_cc t then rem' = [] else rem' = pos_rem (sy_m s'))) ->
+  exists g',
+    (if negb (c14_consistent life' (cf_periphs c) (ts_obs t)) then inr 1406 else
+     if step_cc t then
+       if dirty' || forallb (fun a => existsb (Z.eqb a) turns2) (g14_due g)
+       then inl (mkC14g life' hs' [] None (due_after c (ts_obs t)) 0 false)
+       else inr 1404
+     else inl (mkC14g life' hs' turns2 cur1 (g14_due g) sends1 dirty')) = inl g' /\
+    Rel14 s' gs' pend' g'.
+Proof.
+  intros s' gs' pend' g life' hs' turns2 cur1 sends1 dirty' t rem' HB Hhs Hcc Hlife Hobs HP Hccp Hturns.
+  pose proof HB as [I G].
+  assert (Hcons : c14_consistent life' (cf_periphs c) (ts_obs t) = true).
+  { apply c14_consistent_true. intros k pc o Hpc Ho. rewrite Hobs in Ho.
+    destruct (obs_position c s' k (Some o) I Ho) as [E|(h & p & pc' & Hk & Hsl & Eo & Hpc' & (F1 & _) & _)]; [discriminate E|].
+    rewrite Hpc in Hpc'. inversion Hpc'; subst pc'. inversion Eo; subst o. cbn [ob_live ob_running observe_periph].
+    pose proof (proj1 Hlife _ _ Hsl) as Hrl. unfold RL in Hrl. rewrite F1 in Hrl.
+    unfold is_live, is_running. apply agree_b_public. exact Hrl. }
+  rewrite Hcons. cbn [negb].
+  destruct (step_cc t) eqn:Ecc.
+  - destruct (Hccp eq_refl) as (Hpn & Hpr).
+    assert (Hok : dirty' || forallb (fun a => existsb (Z.eqb a) turns2) (g14_due g) = true).
+    { destruct dirty'; [reflexivity|]. cbn [orb]. destruct (Hturns eq_refl) as (HT & ->).
+      apply forallb_forall. intros a Ha. apply existsb_in.
+      destruct (tu_due _ _ _ _ _ _ HT a Ha) as [Hin|(i & p & Hi & _)]; [exact Hin|destruct Hi]. }
+    rewrite Hok. eexists. split; [reflexivity|].
+    split; [exact HB|]. cbn [g14_handles g14_life g14_cur g14_dirty g14_turns g14_sends g14_due].
+    split; [exact Hhs|]. split; [exact Hcc|]. split; [exact Hlife|].
+    split; [intros da E; rewrite Hpn in E; discriminate E|].
+    intros _. apply turns_fresh; [exact Hpr|].
+    intros a Ha. rewrite due_after_eq in Ha. destruct (due_go_in _ _ _ Ha) as (k & pc & o & Hpc & Ho & Hadr & Hlv & Hcm).
+    rewrite Hobs in Ho.
+    destruct (obs_position c s' k (Some o) I Ho) as [E|(h & p & pc' & Hk & Hsl & Eo & Hpc' & (F1 & F2 & _) & _)]; [discriminate E|].
+    rewrite Hpc in Hpc'. inversion Hpc'; subst pc'. inversion Eo; subst o. cbn [ob_live observe_periph] in Hlv.
+    exists (hd_index h), p. split; [exact Hsl|]. split; [congruence|]. split; [exact Hlv|].
+    unfold complete. rewrite F2. exact Hcm.
+  - eexists. split; [reflexivity|].
+    split; [exact HB|]. cbn [g14_handles g14_life g14_cur g14_dirty g14_turns g14_sends g14_due].
+    split; [exact Hhs|]. split; [exact Hcc|]. split; [exact Hlife|]. split; [exact HP|].
+    intros Hd. destruct (Hturns Hd) as (HT & ->). exact HT.
+Qed.
+
+(* slots that are the same or differ by a user write *)
+Definition user_same (m m' : dpm) : Prop :=
+  forall j, slot m' j = slot m j \/ exists p p', slot m j = Some p /\ slot m' j = Some p' /\ same_ctrl p p'.
+
+Lemma turns_static : forall m m' rem turns cur sends due,
+  Turns m rem turns cur sends due -> user_same m m' -> dm_cycle m' = dm_cycle m ->
+  Turns m' rem turns cur sends due.
+Proof.
+  intros m m' rem turns cur sends due [T1 T2 T3 T4 T5 T6 T7] Hu Hcy.
+  assert (Hfw : forall j p, slot m j = Some p -> exists p', slot m' j = Some p' /\ pe_addr p' = pe_addr p /\
+            pe_state p' = pe_state p /\ pe_retry p' = pe_retry p /\ pe_opts p' = pe_opts p).
+  { intros j p Hp. destruct (Hu j) as [E|(q & q' & Hq & Hq' & (Ha & Hs & Hr & _ & _ & _ & Ho & _))].
+    - exists p. rewrite E. auto.
+    - rewrite Hp in Hq. inversion Hq; subst q. exists q'. auto. }
+  assert (Hbw : forall j p', slot m' j = Some p' -> exists p, slot m j = Some p).
+  { intros j p' Hp'. destruct (Hu j) as [E|(q & q' & Hq & _)]; [exists p'; rewrite <- E; exact Hp'|exists q; exact Hq]. }
+  constructor.
+  - exact T1.
+  - intros j Hj. destruct (T2 j Hj) as (p & Hp). destruct (Hfw _ _ Hp) as (p' & Hp' & _). exists p'. exact Hp'.
+  - intros i j p' Hp' Hni Hj. destruct (Hbw _ _ Hp') as (p & Hp). apply (T3 i j p Hp Hni Hj).
+  - intros a Ha. destruct (T4 a Ha) as (i & p & Hp & Hpa & Hor). destruct (Hfw _ _ Hp) as (p' & Hp' & Ea & _).
+    exists i, p'. split; [exact Hp'|]. split; [congruence|exact Hor].
+  - intros a Ha. destruct (T5 a Ha) as (i & r & p & Hr & Hp & Hpa & Hin & Hs).
+    destruct (Hfw _ _ Hp) as (p' & Hp' & Ea & _ & Er & _). exists i, r, p'. rewrite Er. repeat split; auto. congruence.
+  - intros a Ha. destruct (T6 a Ha) as [Hin|(i & p & Hi & Hp & Hpa & Hl & Hcm)]; [left; exact Hin|right].
+    destruct (Hfw _ _ Hp) as (p' & Hp' & Ea & Es & _ & Eo). exists i, p'. split; [exact Hi|]. split; [exact Hp'|].
+    split; [congruence|]. unfold is_live, complete in *. rewrite Es, Eo. auto.
+  - rewrite Hcy. exact T7.
+Qed.
+
+Lemma per_ok_user_same : forall m gs m' gs' life,
+  per_ok lstate LOff RL m gs life -> user_same m m' -> per_ok lstate LOff RL m' gs' life.
+Proof.
+  intros m gs m' gs' life Hl Hu.
+  apply (per_ok_same _ _ _ m gs life m' gs' Hl).
+  - intros j q' Hq'. destruct (Hu j) as [E|(p & p' & Hp & Hp' & (Ha & Hs & _))].
+    + exists q'. rewrite <- E. split; [exact Hq'|]. split; [reflexivity|]. intros x Hx. exact Hx.
+    + rewrite Hq' in Hp'. inversion Hp'; subst p'. exists p. split; [exact Hp|]. split; [exact Ha|].
+      intros x Hx. unfold RL in *. rewrite Hs. exact Hx.
+  - intros j q Hq. destruct (Hu j) as [E|(p & p' & Hp & Hp' & (Ha & _))].
+    + exists q. rewrite E. auto.
+    + rewrite Hq in Hp. inversion Hp; subst p. exists p'. auto.
+Qed.
+
+Lemma ccomp_static : forall m m', Ccomp m -> user_same m m' -> dm_cycle m' = dm_cycle m -> Ccomp m'.
+Proof.
+  intros m m' Hcc Hu Hcy E. rewrite Hcy in E. specialize (Hcc E). intro Hn. apply Hcc.
+  destruct (occupied m) as [|j r] eqn:Eo; [reflexivity|]. exfalso.
+  assert (Hj : In j (occupied m)) by (rewrite Eo; left; reflexivity).
+  apply occupied_in_slot in Hj. destruct Hj as (p & Hp).
+  assert (Hj' : exists p', slot m' j = Some p').
+  { destruct (Hu j) as [E'|(q & q' & _ & Hq' & _)]; [exists p; rewrite E'; exact Hp|exists q'; exact Hq']. }
+  apply occupied_in_slot in Hj'. rewrite Hn in Hj'. destruct Hj'.
+Qed.
+
+(* steps in which the slot scheduler does not run *)
+Lemma c14_static : forall s gs pend g t s' gs' n,
+  Rel14 s gs pend g -> Base c s' gs' (pend_next_v pend (view_of t)) ->
+  sy_handles s' = sy_handles s -> (forall k, ts_in t <> InAdd k) ->
+  user_same (sy_m s) (sy_m s') -> pos_rem (sy_m s') = pos_rem (sy_m s) -> dm_cycle (sy_m s') = dm_cycle (sy_m s) ->
+  (view_of t = VOther \/ (exists a, view_of t = VTimeout a) \/ view_of t = VAbandon \/
+   (exists h pdu, view_of t = VSdn h pdu) \/ (view_of t = VNoTx /\ ts_op t = OpStop)) ->
+  step_event t = None -> step_cc t = false -> ts_obs t = observe s' ->
+  match ts_out t with OutHang | OutPanic => False | _ => True end ->
+  exists g', c14_step c g n t = inl g' /\ Rel14 s' gs' (pend_next_v pend (view_of t)) g'.
+Proof.
+  intros s gs pend g t s' gs' n (HB & Hh & Hcc & Hlife & HP & HT) HB' Hhs Hnadd Hus Hpr Hcy Hv Hev Hncc Hobs Hout.
+  rewrite c14_step_eq.
+  assert (Ehs : c14_hs g t = sy_handles s').
+  { unfold c14_hs. rewrite Hh, Hhs. destruct (ts_in t); try reflexivity. now elim (Hnadd k). }
+  assert (Edirty : c14_dirty g t = g14_dirty g).
+  { unfold c14_dirty. destruct (ts_in t); try reflexivity. now elim (Hnadd k). }
+  assert (Er1 : c14_r1 (Z.to_nat (p_max_retry (cf_params c))) g (c14_hs g t) (c14_dirty g t) t =
+                inl (g14_turns g, g14_cur g, g14_sends g)).
+  { unfold c14_r1. destruct (c14_dirty g t);
+      destruct Hv as [->|[(a & ->)|[->|[(h & pdu & ->)|(-> & Hop)]]]]; try rewrite Hop; reflexivity. }
+  assert (Er2 : c14_r2 g (c14_hs g t) (g14_turns g) t = inl (g14_life g, g14_turns g)).
+  { unfold c14_r2. rewrite Hev. reflexivity. }
+  assert (Hpn : pend_next_v pend (view_of t) = pend \/ pend_next_v pend (view_of t) = None).
+  { destruct Hv as [->|[(a & ->)|[->|[(h & pdu & ->)|(-> & _)]]]]; cbn; auto. }
+  destruct (ts_out t) eqn:Eout; try contradiction; cbn zeta; rewrite Er1, Er2, Ehs, Edirty;
+    (apply (c14_tail s' gs' _ g (g14_life g) (sy_handles s') (g14_turns g) (g14_cur g) (g14_sends g) (g14_dirty g) t (pos_rem (sy_m s')));
+     [exact HB'|reflexivity|apply (ccomp_static (sy_m s)); assumption|apply (per_ok_user_same (sy_m s) gs); assumption|exact Hobs
+     |intros da E; destruct Hpn as [Hpn|Hpn]; rewrite Hpn in E; [apply HP; exact E|discriminate E]
+     |intro E; rewrite Hncc in E; discriminate E
+     |intro Hd; split; [rewrite Hpr; apply (turns_static (sy_m s)); auto|rewrite Hncc; reflexivity]]).
+Qed.
+
+End C14.
+
+(* PART 15: C14, how the turn bookkeeping moves when the slot scheduler runs *)
+
+Section TurnMoves.
+Variables (pa : params) (op : opstate).
+
+Definition slots_fw (m m' : dpm) : Prop :=
+  forall j p, slot m j = Some p -> exists p', slot m' j = Some p' /\ pe_addr p' = pe_addr p.
+Definition slots_bw (m m' : dpm) : Prop :=
+  forall j p', slot m' j = Some p' -> exists p, slot m j = Some p.
+
+Lemma turns_struct : forall m m' vis rem' turns cur sends due,
+  Turns m (vis ++ rem') turns cur sends due -> slots_fw m m' -> slots_bw m m' ->
+  StronglySorted lt rem' /\ (forall j, In j rem' -> exists p', slot m' j = Some p') /\
+  (forall i j p', slot m' i = Some p' -> ~ In i rem' -> In j rem' -> (i < j)%nat) /\
+  (forall x y, In x vis -> In y rem' -> (x < y)%nat) /\ (forall x, In x vis -> ~ In x rem').
+Proof.
+  intros m m' vis rem' turns cur sends due T Hfw Hbw.
+  destruct (sorted_app _ _ (tu_sorted _ _ _ _ _ _ T)) as (S1 & S2 & S3).
+  split; [exact S1|]. split.
+  - intros j Hj. destruct (tu_occ _ _ _ _ _ _ T j (in_or_app _ _ _ (or_intror Hj))) as (p & Hp).
+    destruct (Hfw _ _ Hp) as (p' & Hp' & _). exists p'. exact Hp'.
+  - split; [|split; [exact S2|exact S3]].
+    intros i j p' Hp' Hni Hj. destruct (Hbw _ _ Hp') as (p & Hp).
+    destruct (in_dec Nat.eq_dec i vis) as [Hiv|Hniv]; [apply S2; assumption|].
+    apply (tu_done _ _ _ _ _ _ T i j p Hp); [|apply in_or_app; right; exact Hj].
+    intro X. apply in_app_or in X. destruct X; contradiction.
+Qed.
+
+(* the head of the remaining list is visited first *)
+Lemma head_in_vis : forall (vis rem' : list nat) i r, vis ++ rem' = i :: r -> vis <> [] -> In i vis.
+Proof. intros [|v vis] rem' i r H Hne; [now elim Hne|]. cbn in H. inversion H. left; reflexivity. Qed.
+
+Definition silent (m m' : dpm) (j : nat) : Prop :=
+  exists q q', slot m j = Some q /\ slot m' j = Some q' /\ p_transmit pa op q = Ok (q', PtxSkip None).
+
+(* nothing visible: zero or more silent turns *)
+Lemma turns_tx_quiet : forall m m' vis rem' turns cur sends due,
+  Turns m (vis ++ rem') turns cur sends due -> slots_fw m m' -> slots_bw m m' ->
+  (forall j, In j vis -> silent m m' j) ->
+  (forall j, ~ In j vis -> slot m' j = slot m j) ->
+  (vis = [] -> dm_cycle m = CyCompleted \/ vis ++ rem' = []) ->
+  dm_cycle m' <> CyCompleted ->
+  Turns m' rem' turns None 0 due.
+Proof.
+  intros m m' vis rem' turns cur sends due T Hfw Hbw Hsil Hun Hnil Hncc.
+  destruct (turns_struct _ _ _ _ _ _ _ _ T Hfw Hbw) as (S1 & S2 & S3 & S4 & S5).
+  assert (Hcur : vis = [] -> cur = None).
+  { intro E. destruct (Hnil E) as [Hc|Hc]; [apply (tu_comp _ _ _ _ _ _ T Hc)|].
+    destruct cur as [a|]; [|reflexivity]. destruct (tu_t2 _ _ _ _ _ _ T a eq_refl) as (i & r & p & Hr & _).
+    rewrite Hc in Hr. discriminate Hr. }
+  constructor; [exact S1|exact S2|exact S3| | | |intro Ecc; now elim Hncc].
+  - intros a Ha. destruct (tu_t1 _ _ _ _ _ _ T a Ha) as (i & p & Hp & Hpa & Hor).
+    destruct (Hfw _ _ Hp) as (p' & Hp' & Ea). exists i, p'. split; [exact Hp'|]. split; [congruence|]. left.
+    destruct Hor as [Hni|(r & Hr & Hc)].
+    + intro X. apply Hni. apply in_or_app. right; exact X.
+    + assert (Hvne : vis <> []) by (intro E; rewrite (Hcur E) in Hc; discriminate Hc).
+      apply S5. apply (head_in_vis _ _ _ _ Hr Hvne).
+  - intros a E. discriminate E.
+  - intros a Ha. destruct (tu_due _ _ _ _ _ _ T a Ha) as [Hin|(i & p & Hi & Hp & Hpa & Hl & Hcm)]; [left; exact Hin|].
+    apply in_app_or in Hi. destruct Hi as [Hi|Hi].
+    + exfalso. destruct (Hsil _ Hi) as (q & q' & Hq & _ & Ht). rewrite Hp in Hq. inversion Hq; subst q.
+      apply (live_complete_not_idle _ _ _ _ Ht Hl Hcm).
+    + right. exists i, p. split; [exact Hi|]. split; [|auto]. rewrite Hun; [exact Hp|]. intro X. apply (S5 _ X Hi).
+Qed.
+
+(* the last visited slot raised Offline *)
+Lemma turns_tx_off : forall m m' vis rem' turns cur sends due joff q q' turns',
+  Turns m (vis ++ rem') turns cur sends due -> slots_fw m m' -> slots_bw m m' ->
+  In joff vis -> slot m joff = Some q -> slot m' joff = Some q' -> pe_addr q' = pe_addr q ->
+  (forall j, In j vis -> j = joff \/ silent m m' j) ->
+  (forall j, ~ In j vis -> slot m' j = slot m j) ->
+  In (pe_addr q) turns' -> (forall x, In x turns -> In x turns') -> (forall x, In x turns' -> x = pe_addr q \/ In x turns) ->
+  dm_cycle m' <> CyCompleted ->
+  Turns m' rem' turns' None 0 due.
+Proof.
+  intros m m' vis rem' turns cur sends due joff q q' turns' T Hfw Hbw Hjv Hq Hq' Ea Hsil Hun Hin Hsub Hsup Hncc.
+  destruct (turns_struct _ _ _ _ _ _ _ _ T Hfw Hbw) as (S1 & S2 & S3 & S4 & S5).
+  constructor; [exact S1|exact S2|exact S3| | | |intro Ecc; now elim Hncc].
+  - intros a Ha. destruct (Hsup _ Ha) as [->|Ha'].
+    + exists joff, q'. split; [exact Hq'|]. split; [exact Ea|]. left. apply S5. exact Hjv.
+    + destruct (tu_t1 _ _ _ _ _ _ T a Ha') as (i & p & Hp & Hpa & Hor).
+      destruct (Hfw _ _ Hp) as (p' & Hp' & Ea'). exists i, p'. split; [exact Hp'|]. split; [congruence|]. left.
+      destruct Hor as [Hni|(r & Hr & Hc)].
+      * intro X. apply Hni. apply in_or_app. right; exact X.
+      * apply S5. apply (head_in_vis _ _ _ _ Hr). intro E. rewrite E in Hjv. destruct Hjv.
+  - intros a E. discriminate E.
+  - intros a Ha. destruct (tu_due _ _ _ _ _ _ T a Ha) as [Hi|(i & p & Hi & Hp & Hpa & Hl & Hcm)]; [left; apply Hsub; exact Hi|].
+    apply in_app_or in Hi. destruct Hi as [Hi|Hi].
+    + destruct (Hsil _ Hi) as [->|(q0 & q0' & Hq0 & _ & Ht)].
+      * left. rewrite Hq in Hp. inversion Hp; subst p. rewrite <- Hpa. exact Hin.
+      * exfalso. rewrite Hp in Hq0. inversion Hq0; subst q0. apply (live_complete_not_idle _ _ _ _ Ht Hl Hcm).
+    + right. exists i, p. split; [exact Hi|]. split; [|auto]. rewrite Hun; [exact Hp|]. intro X. apply (S5 _ X Hi).
+Qed.
+
+(* a request from slot js, the head of what remains *)
+Lemma turns_tx_send : forall m m' vis r js q q' h pdu turns cur sends due,
+  Turns m (vis ++ js :: r) turns cur sends due -> slots_fw m m' -> slots_bw m m' -> addr_inj m ->
+  slot m js = Some q -> slot m' js = Some q' -> p_transmit pa op q = Ok (q', PtxSend h pdu) -> 0 <= pe_retry q ->
+  (forall j, In j vis -> silent m m' j) ->
+  (forall j, ~ In j vis -> j <> js -> slot m' j = slot m j) ->
+  dm_cycle m' <> CyCompleted ->
+  (cur = Some (pe_addr q) -> vis = [] /\ Z.of_nat sends <= pe_retry q /\
+     Turns m' (js :: r) turns (Some (pe_addr q)) (S sends) due) /\
+  (cur <> Some (pe_addr q) ->
+     ~ In (pe_addr q) turns /\
+     (forall prev rest, turns = prev :: rest -> exists ip pp, slot m ip = Some pp /\ pe_addr pp = prev /\ (ip < js)%nat) /\
+     Turns m' (js :: r) (pe_addr q :: turns) (Some (pe_addr q)) 1 due).
+Proof.
+  intros m m' vis r js q q' h pdu turns cur sends due T Hfw Hbw Hinj Hq Hq' Hp Hr0 Hsil Hun Hncc.
+  destruct (turns_struct _ _ _ _ _ _ _ _ T Hfw Hbw) as (S1 & S2 & S3 & S4 & S5).
+  pose proof (transmit_spec _ _ _ _ _ Hp) as Hts. cbn beta iota in Hts.
+  destruct Hts as (_ & _ & _ & _ & _ & Hre & Hst).
+  destruct (transmit_keeps _ _ _ _ _ Hp) as (Ea & _ & _ & Eo & _).
+  assert (Hjs : In js (js :: r)) by (left; reflexivity).
+  assert (Hlive : is_live q' = is_live q /\ complete q' = complete q) by (unfold is_live, complete; rewrite Hst, Eo; auto).
+  (* obligations shared by both branches *)
+  assert (Hdue : forall turns', (forall x, In x turns -> In x turns') -> In (pe_addr q) turns' ->
+            forall a, In a due -> In a turns' \/
+              exists i p, In i (js :: r) /\ slot m' i = Some p /\ pe_addr p = a /\ is_live p = true /\ complete p = true).
+  { intros turns' Hsub Hin a Ha.
+    destruct (tu_due _ _ _ _ _ _ T a Ha) as [Hi|(i & p & Hi & Hpp & Hpa & Hl & Hcm)]; [left; apply Hsub; exact Hi|].
+    apply in_app_or in Hi. destruct Hi as [Hi|Hi].
+    - exfalso. destruct (Hsil _ Hi) as (q0 & q0' & Hq0 & _ & Ht). rewrite Hpp in Hq0. inversion Hq0; subst q0.
+      apply (live_complete_not_idle _ _ _ _ Ht Hl Hcm).
+    - destruct (Nat.eq_dec i js) as [->|Hne].
+      + left. rewrite Hq in Hpp. inversion Hpp; subst p. rewrite <- Hpa. exact Hin.
+      + right. exists i, p. split; [exact Hi|]. split; [|auto]. rewrite Hun; [exact Hpp| |exact Hne]. intro X. apply (S5 _ X Hi). }
+  split.
+  - intro Hc. destruct (tu_t2 _ _ _ _ _ _ T _ Hc) as (i & r0 & p & Hr & Hpp & Hpa & Hin & Hs).
+    assert (Ei : i = js) by (apply (Hinj i js p q Hpp Hq Hpa)). subst i. rewrite Hq in Hpp. inversion Hpp; subst p.
+    assert (Ev : vis = []).
+    { destruct vis as [|v vs]; [reflexivity|]. exfalso. cbn in Hr. inversion Hr; subst v.
+      apply (S5 js); [left; reflexivity|exact Hjs]. }
+    split; [exact Ev|]. split; [exact Hs|].
+    constructor; [exact S1|exact S2|exact S3| | | |intro Ecc; now elim Hncc].
+    + intros a Ha. destruct (tu_t1 _ _ _ _ _ _ T a Ha) as (i & p & Hpi & Hpa' & Hor).
+      destruct (Hfw _ _ Hpi) as (p' & Hp' & Ea'). exists i, p'. split; [exact Hp'|]. split; [congruence|].
+      destruct Hor as [Hni|(r1 & Hr1 & Hc1)].
+      * left. intro X. apply Hni. apply in_or_app. right; exact X.
+      * right. rewrite Ev in Hr1. cbn in Hr1. exists r. inversion Hr1; subst. split; [reflexivity|exact Hc1].
+    + intros a E. inversion E; subst a. exists js, r, q'. split; [reflexivity|]. split; [exact Hq'|]. split; [exact Ea|].
+      split; [exact Hin|]. rewrite Hre. lia.
+    + apply Hdue; auto.
+  - intro Hc.
+    assert (Hnin : ~ In (pe_addr q) turns).
+    { intro Ha. destruct (tu_t1 _ _ _ _ _ _ T _ Ha) as (i & p & Hpi & Hpa & Hor).
+      assert (Ei : i = js) by (apply (Hinj i js p q Hpi Hq Hpa)). subst i.
+      destruct Hor as [Hni|(r1 & _ & Hc1)]; [|contradiction].
+      apply Hni. apply in_or_app. right. exact Hjs. }
+    split; [exact Hnin|]. split.
+    + intros prev rest Et. assert (Ha : In prev turns) by (rewrite Et; left; reflexivity).
+      destruct (tu_t1 _ _ _ _ _ _ T _ Ha) as (i & p & Hpi & Hpa & Hor). exists i, p. split; [exact Hpi|]. split; [exact Hpa|].
+      destruct Hor as [Hni|(r1 & Hr1 & Hc1)].
+      * apply (tu_done _ _ _ _ _ _ T i js p Hpi Hni). apply in_or_app. right; exact Hjs.
+      * assert (Hne : i <> js) by (intro E; subst i; rewrite Hq in Hpi; inversion Hpi; subst p; rewrite Hpa in Hc; contradiction).
+        destruct vis as [|v vs].
+        -- cbn in Hr1. inversion Hr1. exfalso. congruence.
+        -- cbn in Hr1. inversion Hr1; subst v. apply S4; [left; reflexivity|exact Hjs].
+    + constructor; [exact S1|exact S2|exact S3| | | |intro Ecc; now elim Hncc].
+      * intros a [<-|Ha].
+        -- exists js, q'. split; [exact Hq'|]. split; [exact Ea|]. right. exists r. auto.
+        -- destruct (tu_t1 _ _ _ _ _ _ T a Ha) as (i & p & Hpi & Hpa & Hor).
+           destruct (Hfw _ _ Hpi) as (p' & Hp' & Ea'). exists i, p'. split; [exact Hp'|]. split; [congruence|]. left.
+           destruct Hor as [Hni|(r1 & Hr1 & Hc1)].
+           ++ intro X. apply Hni. apply in_or_app. right; exact X.
+           ++ assert (Hne : i <> js).
+              { intro E; subst i. rewrite Hq in Hpi. inversion Hpi; subst p. rewrite Hpa in Hc. contradiction. }
+              destruct vis as [|v vs].
+              ** cbn in Hr1. inversion Hr1. exfalso. congruence.
+              ** cbn in Hr1. inversion Hr1; subst v. apply S5. left; reflexivity.
+      * intros a E. inversion E; subst a. exists js, r, q'. split; [reflexivity|]. split; [exact Hq'|]. split; [exact Ea|].
+        split; [left; reflexivity|]. rewrite Hre. lia.
+      * apply Hdue; [intros x Hx; right; exact Hx|left; reflexivity].
+Qed.
+
+(* the reply for the head ends its turn *)
+Lemma turns_rx : forall m m' j r p p1 turns sends due,
+  Turns m (j :: r) turns (Some (pe_addr p)) sends due -> slots_fw m m' -> slots_bw m m' ->
+  slot m j = Some p -> slot m' j = Some p1 ->
+  (forall i, i <> j -> slot m' i = slot m i) ->
+  Turns m' r turns None 0 due.
+Proof.
+  intros m m' j r p p1 turns sends due T Hfw Hbw Hp Hp1 Hun.
+  destruct (turns_struct m m' [j] r _ _ _ _ T Hfw Hbw) as (S1 & S2 & S3 & S4 & S5).
+  assert (Hjr : ~ In j r) by (apply S5; left; reflexivity).
+  constructor; [exact S1|exact S2|exact S3| | | |intros _; reflexivity].
+  - intros a Ha. destruct (tu_t1 _ _ _ _ _ _ T a Ha) as (i & q & Hq & Hqa & Hor).
+    destruct (Hfw _ _ Hq) as (q' & Hq' & Ea'). exists i, q'. split; [exact Hq'|]. split; [congruence|]. left.
+    destruct Hor as [Hni|(r1 & Hr1 & _)].
+    + intro X. apply Hni. right; exact X.
+    + inversion Hr1; subst. exact Hjr.
+  - intros a E. discriminate E.
+  - intros a Ha. destruct (tu_due _ _ _ _ _ _ T a Ha) as [Hi|(i & q & Hi & Hq & Hqa & Hl & Hcm)]; [left; exact Hi|].
+    destruct Hi as [<-|Hi].
+    + left. rewrite Hp in Hq. inversion Hq; subst q. rewrite <- Hqa.
+      destruct (tu_t2 _ _ _ _ _ _ T _ eq_refl) as (_ & _ & _ & _ & _ & _ & Hin & _). exact Hin.
+    + right. exists i, q. split; [exact Hi|]. split; [|auto]. rewrite Hun; [exact Hq|]. intro E; subst i. contradiction.
+Qed.
+
+End TurnMoves.
+
+(* PART 16: C14, a transmit call that runs the slot scheduler *)
+
+Lemma cur_test : forall (cur : option Z) da,
+  (match cur with Some a => a =? da | None => false end) = true <-> cur = Some da.
+Proof.
+  intros [a|] da; split; intro H; try discriminate H.
+  - apply Z.eqb_eq in H. subst. reflexivity.
+  - inversion H. apply Z.eqb_refl.
+Qed.
+
+Lemma RL_agree : forall pa a o p g l, RL p g l -> Inv pa a o p g -> agree l p.
+Proof.
+  intros pa a o p g l H I. split; [exact H|]. intro Hoff.
+  rewrite (inv_retry _ _ _ _ _ I). apply (inv_probe _ _ _ _ _ I Hoff).
+Qed.
+
+Lemma RL_quiet : forall q g q' g' l, Quiet q g q' g' -> RL q g l -> RL q' g' l.
+Proof. intros q g q' g' l HQ H. unfold RL in *. rewrite (qu_state _ _ _ _ HQ). exact H. Qed.
+
+Lemma ltb_false_of_le : forall (a b : nat), (b <= a)%nat -> Nat.ltb a b = false.
+Proof. intros a b H. apply Nat.ltb_ge. exact H. Qed.
+
+Lemma c14_r2_event : forall (g : c14g) hs turns t a ev e i l',
+  step_event t = Some (a, ev) -> ts_taken t = Some e -> ev_peripheral e = Some (mkHandle i a, ev) ->
+  index_of_addr hs a = Some i -> l_step (alist_get LOff (g14_life g) a) ev = Some l' ->
+  c14_r2 g hs turns t =
+    inl (alist_set (g14_life g) a l',
+         match ev with EvOffline => if existsb (Z.eqb a) turns then turns else a :: turns | _ => turns end).
+Proof.
+  intros g hs turns t a ev e i l' Hse Htk Hpe Hidx Hl. unfold c14_r2. rewrite Hse, Htk.
+  destruct e as [ccf pe]. cbn [ev_peripheral] in Hpe. subst pe. rewrite Hidx. cbn [hd_index]. rewrite Nat.eqb_refl.
+  cbn [negb]. rewrite Hl. reflexivity.
+Qed.
+
+Section C14b.
+Variable c : conf.
+Hypothesis Hc : conf_ok c.
+
+Lemma c14_tx : forall s gs g now hp m1 o log n,
+  Rel14 c s gs None g -> dm_op (sy_m s) <> OpStop ->
+  tx_rel (cf_params c) (cf_bufsize c) (sy_m s) m1 o log ->
+  SInv c (set_m s (set_events m1 events_default)) ->
+  exists gs' g',
+    c14_step c g n (mkStep (InTx now hp) false (OutTx o) (Some (dm_events m1))
+                      (observe (set_m s (set_events m1 events_default))) (dm_op m1)) = inl g' /\
+    Rel14 c (set_m s (set_events m1 events_default)) gs'
+      (pend_next_v None (view_of (mkStep (InTx now hp) false (OutTx o) (Some (dm_events m1))
+                                    (observe (set_m s (set_events m1 events_default))) (dm_op m1)))) g'.
+Proof.
+  intros s gs g now hp m1 o log n (HB & Hh & Hcc & Hlife & HP & HT) Hop Hrel I'.
+  set (s' := set_m s (set_events m1 events_default)) in *.
+  set (t := mkStep (InTx now hp) false (OutTx o) (Some (dm_events m1)) (observe s') (dm_op m1)).
+  destruct HB as [I G]. pose proof (co_retry _ Hc) as Hmax.
+  destruct (tx_rel_ghost _ _ _ _ _ _ Hmax Hrel gs G) as (gs' & v & G' & Hmk & Hop' & Hslots & Hvis).
+  destruct (tx_rel_cycle _ _ _ _ _ _ Hrel Hcc) as (rem' & Hte & _ & Hncc & Hpost).
+  destruct (tx_rel_visit _ _ _ _ _ _ Hrel rem' Hte) as (vis & Hpos & V1 & V5 & V3 & V4 & V6 & V7).
+  exists gs'.
+  pose proof (sinv_addr_inj c s Hc I) as Hinj. pose proof (sinv_addr_inj c s' Hc I') as Hinj'.
+  assert (Hsl' : forall j, slot (sy_m s') j = slot m1 j) by reflexivity.
+  assert (Hfw : slots_fw (sy_m s) (sy_m s')).
+  { intros j p Hp. destruct (Hslots _ _ Hp) as (p' & Hp' & Hpost'). exists p'. split; [exact Hp'|].
+    apply (slot_post_shape _ _ _ _ _ _ _ _ Hpost'). }
+  assert (Hbw : slots_bw (sy_m s) (sy_m s')) by (intros j p' Hp'; apply (mask_slot_back (sy_m s) m1 j p' Hmk Hp')).
+  assert (Hcc' : Ccomp (sy_m s')) by (intro E; now elim Hncc).
+  assert (Hncc' : dm_cycle (sy_m s') <> CyCompleted) by exact Hncc.
+  assert (Hstepcc : step_cc t = ev_cycle_completed (dm_events m1)) by reflexivity.
+  assert (Hrem : if step_cc t then rem' = [] else rem' = pos_rem (sy_m s')).
+  { rewrite Hstepcc. destruct (ev_cycle_completed (dm_events m1)); [apply Hpost|symmetry; apply Hpost]. }
+  assert (Hccocc : step_cc t = true -> o = None /\ pos_rem (sy_m s') = occupied (sy_m s')).
+  { rewrite Hstepcc. intro E. rewrite E in Hpost. destruct Hpost as (Hr' & Hpr). split; [|exact Hpr].
+    destruct o as [x|]; [|reflexivity]. destruct (V5 ltac:(discriminate)) as (js & r & _ & _ & _ & _ & Er & _).
+    rewrite Hr' in Er. discriminate Er. }
+  assert (Hhs : c14_hs g t = sy_handles s') by (unfold c14_hs; cbn; exact Hh).
+  assert (Hdirty : c14_dirty g t = g14_dirty g) by reflexivity.
+  assert (Hopt : ts_op t <> OpStop) by (cbn; rewrite Hop'; exact Hop).
+  rewrite Hpos in HT.
+  rewrite c14_step_eq. cbn [ts_out t]. cbn zeta. rewrite Hhs, Hdirty.
+  destruct v as [|i h pdu|i].
+  - (* nothing visible *)
+    destruct Hvis as (Ho & Hev). subst o.
+    assert (Hv : view_of t = VNoTx) by reflexivity.
+    assert (Hse : step_event t = None) by (unfold step_event; cbn; rewrite Hev; reflexivity).
+    assert (Hr1 : c14_r1 (Z.to_nat (p_max_retry (cf_params c))) g (sy_handles s') (g14_dirty g) t =
+                  inl (g14_turns g, (if g14_dirty g then g14_cur g else None), (if g14_dirty g then g14_sends g else 0%nat))).
+    { unfold c14_r1. rewrite Hv. destruct (g14_dirty g); [reflexivity|].
+      destruct (ts_op t) eqn:E; [now elim Hopt|reflexivity|reflexivity]. }
+    rewrite Hr1. unfold c14_r2. rewrite Hse.
+    apply (c14_tail c s' gs' _ g (g14_life g) (sy_handles s') (g14_turns g) _ _ (g14_dirty g) t rem').
+    + rewrite Hv. split; [exact I'|]. apply (ginv_frame _ m1); [reflexivity|reflexivity|exact G'].
+    + reflexivity.
+    + exact Hcc'.
+    + apply (per_ok_same _ _ _ (sy_m s) gs (g14_life g) (sy_m s') gs' Hlife); [|exact Hfw].
+      intros j q' Hq'. destruct (Hbw _ _ Hq') as (q & Hq). destruct (Hslots _ _ Hq) as (q2 & Hq2 & HQ).
+      rewrite Hsl' in Hq'. rewrite Hq' in Hq2. inversion Hq2; subst q2. cbn [slot_post] in HQ. exists q.
+      split; [exact Hq|]. split; [apply (qu_addr _ _ _ _ HQ)|]. intros x Hx. eapply RL_quiet; eassumption.
+    + reflexivity.
+    + rewrite Hv. intros da E. discriminate E.
+    + intro E. destruct (Hccocc E) as (_ & Hx). rewrite Hv. auto.
+    + intro Hd. rewrite Hd. split; [|exact Hrem].
+      apply (turns_tx_quiet (cf_params c) (dm_op (sy_m s)) (sy_m s) (sy_m s') vis rem' _ (g14_cur g) (g14_sends g)); auto.
+      * intros j Hj. destruct (V4 Hev _ Hj) as (q & q' & H1 & H2 & H3). exists q, q'. auto.
+      * intros j Hj. rewrite Hsl'. apply (V3 eq_refl _ Hj).
+      * intros E. rewrite <- Hpos. apply (V6 E eq_refl).
+  - (* a request *)
+    destruct Hvis as (w & q & Ho & Henc & Hev & Hcur & Hq). subst o.
+    destruct (Hslots _ _ Hq) as (q' & Hq' & Hpost'). cbn [slot_post] in Hpost'. rewrite Nat.eqb_refl in Hpost'.
+    destruct Hpost' as (q1 & g1 & HQ & I1 & Hp & Hg' & Hreq).
+    destruct (slot_handle c s i q I Hq) as (k & pc & _ & Hpc & Hfit).
+    assert (Hfit1 : fits pc q1).
+    { destruct Hfit as (F1 & F2 & F3 & F4). unfold fits.
+      rewrite (qu_addr _ _ _ _ HQ), (qu_opts _ _ _ _ HQ), (qu_pi_i _ _ _ _ HQ), (qu_pi_q _ _ _ _ HQ). auto. }
+    destruct (req_wire c pc _ _ _ _ _ _ _ (co_limits _ Hc) (co_own _ Hc) (ex_intro _ k Hpc) Hfit1 Hp Henc)
+      as (Hdec & f & rq & Hfc).
+    assert (Hv : view_of t = VReq (h_da h) (classify h) h pdu) by (eapply view_tx_req; [exact Hdec|exact Hfc]).
+    pose proof Hreq as (f0 & Hstd & _). destruct (std_request_classify _ _ _ _ _ _ _ Hstd) as (_ & Hda & _).
+    assert (Hse : step_event t = None) by (unfold step_event; cbn; rewrite Hev; reflexivity).
+    (* not the end of the pass; the sender is the head of what remains *)
+    destruct (V5 ltac:(discriminate)) as (js & r & qs & qs' & h2 & pdu2 & Erem & Hqs & Hqs' & Hps & Hoth).
+    assert (Encc : step_cc t = false).
+    { destruct (step_cc t) eqn:E; [|reflexivity]. destruct (Hccocc eq_refl) as (X & _). discriminate X. }
+    rewrite Encc in Hrem.
+    assert (Eij : i = js).
+    { apply (cur_is_fun m1); [exact Hcur|]. exists r. change (pos_rem m1) with (pos_rem (sy_m s')). rewrite <- Hrem. exact Erem. }
+    subst js. rewrite Hq in Hqs. inversion Hqs; subst qs. rewrite Hq' in Hqs'. inversion Hqs'; subst qs'.
+    assert (Haq' : pe_addr q' = pe_addr q) by (destruct (transmit_keeps _ _ _ _ _ Hps) as (E & _); exact E).
+    assert (Hidx : index_of_addr (sy_handles s') (h_da h) = Some i).
+    { rewrite Hda, <- Haq'. apply (slot_index_of_addr c Hc s' i q' I'). exact Hq'. }
+    pose proof (transmit_spec _ _ _ _ _ Hps) as Hts. cbn beta iota in Hts. destruct Hts as (Hex & _ & _ & _ & _ & Hre & Hst).
+    unfold dp_retry_exhausted in Hex. apply Z.ltb_ge in Hex.
+    pose proof (gi_inv _ _ _ _ G _ _ Hq) as Iq.
+    assert (Hr0 : 0 <= pe_retry q) by (rewrite (inv_retry _ _ _ _ _ Iq); apply (inv_bound _ _ _ _ _ Iq)).
+    rewrite Erem in HT.
+    assert (Hsend := fun Hd : g14_dirty g = false =>
+      turns_tx_send (cf_params c) (dm_op (sy_m s)) (sy_m s) (sy_m s') vis r i q q' h2 pdu2 _ _ _ _
+        (HT Hd) Hfw Hbw Hinj Hq Hq' Hps Hr0
+        (V4 Hev)
+        (fun j Hj Hne => eq_trans (Hsl' j) (Hoth j Hj Hne)) Hncc').
+    (* the turn bookkeeping of the monitor *)
+    assert (Hr1 : exists turns1 sends1,
+              c14_r1 (Z.to_nat (p_max_retry (cf_params c))) g (sy_handles s') (g14_dirty g) t =
+                inl (turns1, Some (h_da h), sends1) /\
+              (g14_dirty g = true -> turns1 = g14_turns g) /\
+              (g14_dirty g = false -> Turns (sy_m s') (i :: r) turns1 (Some (h_da h)) sends1 (g14_due g))).
+    { unfold c14_r1. rewrite Hv. destruct (g14_dirty g) eqn:Ed.
+      - eexists; eexists. split; [reflexivity|]. split; [reflexivity|intro X; discriminate X].
+      - rewrite Hidx. destruct (Hsend eq_refl) as (Hretx & Hnew). rewrite Hda in *.
+        destruct (match g14_cur g with Some a => a =? pe_addr q | None => false end) eqn:Ecur.
+        + apply cur_test in Ecur. destruct (Hretx Ecur) as (_ & Hs & HT').
+          rewrite ltb_false_of_le by lia.
+          eexists; eexists. split; [reflexivity|]. split; [intro X; discriminate X|intros _; exact HT'].
+        + assert (Hncur : g14_cur g <> Some (pe_addr q)).
+          { intro E. apply cur_test in E. rewrite E in Ecur. discriminate Ecur. }
+          destruct (Hnew Hncur) as (Hnin & Hord & HT').
+          assert (Hex0 : existsb (Z.eqb (pe_addr q)) (g14_turns g) = false).
+          { destruct (existsb (Z.eqb (pe_addr q)) (g14_turns g)) eqn:E; [|reflexivity].
+            apply existsb_in_iff in E. contradiction. }
+          rewrite Hex0.
+          assert (Hio : match g14_turns g with
+                        | [] => true
+                        | prev :: _ => match index_of_addr (sy_handles s') prev with Some px => Nat.ltb px i | None => true end
+                        end = true).
+          { destruct (g14_turns g) as [|prev rest] eqn:Et; [reflexivity|].
+            destruct (Hord prev rest eq_refl) as (ip & pp & Hpp & Hpa & Hlt).
+            destruct (Hfw _ _ Hpp) as (pp' & Hpp' & Ea).
+            rewrite <- Hpa, <- Ea. rewrite (slot_index_of_addr c Hc s' ip pp' I' Hpp'). apply Nat.ltb_lt. exact Hlt. }
+          rewrite Hio.
+          eexists; eexists. split; [reflexivity|]. split; [intro X; discriminate X|intros _; exact HT']. }
+    destruct Hr1 as (turns1 & sends1 & -> & Hdt & Hnt).
+    unfold c14_r2. rewrite Hse.
+    apply (c14_tail c s' gs' _ g (g14_life g) (sy_handles s') turns1 _ _ (g14_dirty g) t (i :: r)).
+    + rewrite Hv. split; [exact I'|]. apply (ginv_frame _ m1); [reflexivity|reflexivity|exact G'].
+    + reflexivity.
+    + exact Hcc'.
+    + apply (per_ok_same _ _ _ (sy_m s) gs (g14_life g) (sy_m s') gs' Hlife); [|exact Hfw].
+      * intros j q0' Hq0'. destruct (Hbw _ _ Hq0') as (q0 & Hq0). destruct (Hslots _ _ Hq0) as (q2 & Hq2 & HQ2).
+        rewrite Hsl' in Hq0'. rewrite Hq0' in Hq2. inversion Hq2; subst q2.
+        pose proof (slot_post_shape _ _ _ _ _ _ _ _ HQ2) as (Ea0 & _). cbn [slot_post] in HQ2. exists q0.
+        split; [exact Hq0|]. split; [exact Ea0|].
+        destruct (Nat.eqb_spec j i) as [->|Hne].
+        -- destruct HQ2 as (q3 & g3 & HQ3 & _ & Hp3 & _). intros x Hx. unfold RL in *.
+           pose proof (transmit_spec _ _ _ _ _ Hp3) as Hts3. cbn beta iota in Hts3.
+           destruct Hts3 as (_ & _ & _ & _ & _ & _ & Hst3). rewrite Hst3, (qu_state _ _ _ _ HQ3). exact Hx.
+        -- intros x Hx. eapply RL_quiet; eassumption.
+    + reflexivity.
+    + rewrite Hv. intros da E. inversion E. reflexivity.
+    + intro E. rewrite Encc in E. discriminate E.
+    + intro Hd. split; [apply Hnt; exact Hd|]. rewrite Encc. rewrite <- Erem. exact Hrem.
+  - (* the Offline event *)
+    destruct Hvis as (Ho & q & Hq & Hev). subst o.
+    destruct (Hslots _ _ Hq) as (q' & Hq' & Hpost'). cbn [slot_post] in Hpost'. rewrite Nat.eqb_refl in Hpost'.
+    destruct Hpost' as (q1 & g1 & HQ & I1 & Hp & Hg' & Hok).
+    assert (Hv : view_of t = VNoTx) by reflexivity.
+    assert (Hse : step_event t = Some (pe_addr q, EvOffline)) by (unfold step_event; cbn; rewrite Hev; reflexivity).
+    assert (Haq' : pe_addr q' = pe_addr q).
+    { destruct (transmit_keeps _ _ _ _ _ Hp) as (E & _). rewrite E. apply (qu_addr _ _ _ _ HQ). }
+    assert (Hr1 : c14_r1 (Z.to_nat (p_max_retry (cf_params c))) g (sy_handles s') (g14_dirty g) t =
+                  inl (g14_turns g, (if g14_dirty g then g14_cur g else None), (if g14_dirty g then g14_sends g else 0%nat))).
+    { unfold c14_r1. rewrite Hv. destruct (g14_dirty g); [reflexivity|].
+      destruct (ts_op t) eqn:E; [now elim Hopt|reflexivity|reflexivity]. }
+    rewrite Hr1.
+    pose proof (proj1 Hlife _ _ Hq) as Hrl.
+    assert (Hag : agree (alist_get LOff (g14_life g) (pe_addr q)) q1).
+    { eapply RL_agree; [eapply RL_quiet; eassumption|exact I1]. }
+    pose proof (tx_agree _ _ _ _ _ _ Hmax Hag Hp) as Hta. cbn beta iota in Hta. destruct Hta as (l' & Hl & Hag').
+    assert (Hidx : index_of_addr (sy_handles s') (pe_addr q) = Some i).
+    { rewrite <- Haq'. apply (slot_index_of_addr c Hc s' i q' I'). exact Hq'. }
+    rewrite (c14_r2_event g (sy_handles s') (g14_turns g) t (pe_addr q) EvOffline (dm_events m1) i l' Hse eq_refl Hev Hidx Hl).
+    set (turns2 := if existsb (Z.eqb (pe_addr q)) (g14_turns g) then g14_turns g else pe_addr q :: g14_turns g).
+    assert (Ht2 : In (pe_addr q) turns2 /\ (forall x, In x (g14_turns g) -> In x turns2) /\
+                  (forall x, In x turns2 -> x = pe_addr q \/ In x (g14_turns g))).
+    { unfold turns2. destruct (existsb (Z.eqb (pe_addr q)) (g14_turns g)) eqn:E.
+      - apply existsb_in_iff in E. split; [exact E|]. split; [auto|]. intros x Hx. right; exact Hx.
+      - split; [left; reflexivity|]. split; [intros x Hx; right; exact Hx|]. intros x [<-|Hx]; auto. }
+    destruct Ht2 as (T2a & T2b & T2c).
+    assert (Hiv : In i vis) by (apply (V7 _ _ Hev)).
+    apply (c14_tail c s' gs' _ g (alist_set (g14_life g) (pe_addr q) l') (sy_handles s') turns2 _ _ (g14_dirty g) t rem').
+    + rewrite Hv. split; [exact I'|]. apply (ginv_frame _ m1); [reflexivity|reflexivity|exact G'].
+    + reflexivity.
+    + exact Hcc'.
+    + apply (per_ok_set _ _ _ (sy_m s) gs (g14_life g) (sy_m s') gs' i (pe_addr q) l' Hlife Hinj); [|exact Hfw|exists q; auto].
+      intros j q0' Hq0'. destruct (Hbw _ _ Hq0') as (q0 & Hq0). destruct (Hslots _ _ Hq0) as (q2 & Hq2 & HQ2).
+      rewrite Hsl' in Hq0'. rewrite Hq0' in Hq2. inversion Hq2; subst q2.
+      pose proof (slot_post_shape _ _ _ _ _ _ _ _ HQ2) as (Ea0 & _). cbn [slot_post] in HQ2. exists q0.
+      split; [exact Hq0|]. split; [exact Ea0|]. split.
+      * intros Hne x Hx. destruct (Nat.eqb_spec j i); [contradiction|]. eapply RL_quiet; eassumption.
+      * intros ->. rewrite Hq in Hq0. inversion Hq0; subst q0. rewrite Hq' in Hq0'. inversion Hq0'; subst q0'.
+        split; [apply Hag'|reflexivity].
+    + reflexivity.
+    + rewrite Hv. intros da E. discriminate E.
+    + intro E. destruct (Hccocc E) as (_ & Hx). rewrite Hv. auto.
+    + intro Hd. rewrite Hd. split; [|exact Hrem].
+      apply (turns_tx_off (cf_params c) (dm_op (sy_m s)) (sy_m s) (sy_m s') vis rem' (g14_turns g) (g14_cur g) (g14_sends g)
+               (g14_due g) i q q' turns2); auto.
+      * intros j Hj. destruct (V1 _ Hj) as (q0 & q0' & ev0 & H1 & H2 & H3 & [->|(-> & H4)]).
+        -- right. exists q0, q0'. auto.
+        -- left. rewrite Hev in H4. inversion H4. reflexivity.
+      * intros j Hj. rewrite Hsl'. apply (V3 eq_refl _ Hj).
+Qed.
+
+
+End C14b.
+
+(* PART 17: C14_oracle_sound *)
+
+Section C14c.
+Variable c : conf.
+Hypothesis Hc : conf_ok c.
+
+(* receive_reply: the turn of the current slot ends *)
+Lemma c14_rx : forall s gs g now addr wire tg m1 n,
+  Rel14 c s gs (Some addr) g ->
+  decode wire = Ok (Accept tg (length wire)) -> dp_receive_reply (sy_m s) addr tg = Ok m1 ->
+  SInv c (set_m s (set_events m1 events_default)) ->
+  exists gs' g',
+    c14_step c g n (mkStep (InRx now addr wire) false OutUnit (Some (dm_events m1))
+                      (observe (set_m s (set_events m1 events_default))) (dm_op m1)) = inl g' /\
+    Rel14 c (set_m s (set_events m1 events_default)) gs' None g'.
+Proof.
+  intros s gs g now addr wire tg m1 n (HB & Hh & Hcc & Hlife & HP & HT) Hdec Hrx I'.
+  set (s' := set_m s (set_events m1 events_default)) in *.
+  set (t := mkStep (InRx now addr wire) false OutUnit (Some (dm_events m1)) (observe s') (dm_op m1)).
+  destruct HB as [I G]. pose proof (co_retry _ Hc) as Hmax.
+  rewrite <- dp_receive_reply_erase in Hrx.
+  destruct (dp_receive_reply_g (sy_m s) addr tg) as [[m1' log]| |] eqn:Hg; cbn [drop_log] in Hrx; try discriminate Hrx.
+  inversion Hrx; subst m1'. clear Hrx.
+  destruct (rx_ghost _ _ _ _ _ _ _ _ Hmax G Hg) as
+    (i & p & p1 & ev & cc & _ & Hcur & Hsl & Ha & _ & Hp & Hsl' & Hoth & Hmk & Hev & Hop' & Ii & Hout & G' & r & Hr & Hcyc).
+  exists (gupd gs i (gstep (gs i) (WReply tg ev))).
+  pose proof (sinv_addr_inj c s Hc I) as Hinj.
+  assert (Hsls : forall j, slot (sy_m s') j = slot m1 j) by reflexivity.
+  assert (Hap : pe_addr p1 = pe_addr p) by (apply (receive_facts _ _ _ _ Hp)).
+  assert (Hfw : slots_fw (sy_m s) (sy_m s')).
+  { intros j q Hq. destruct (Nat.eq_dec j i) as [->|Hne].
+    - rewrite Hsl in Hq. inversion Hq; subst q. exists p1. split; [rewrite Hsls; exact Hsl'|exact Hap].
+    - exists q. rewrite Hsls, Hoth by exact Hne. auto. }
+  assert (Hbw : slots_bw (sy_m s) (sy_m s')) by (intros j q' Hq'; apply (mask_slot_back (sy_m s) m1 j q' Hmk Hq')).
+  assert (Hv : view_of t = VReply addr tg) by (eapply view_rx; exact Hdec).
+  assert (Hse : step_event t = option_map (fun e => (addr, e)) ev).
+  { unfold step_event. cbn [ts_taken t]. rewrite Hev. cbn [ev_peripheral]. destruct ev; reflexivity. }
+  assert (Hstepcc : step_cc t = cc) by (unfold step_cc; cbn [ts_taken t]; rewrite Hev; reflexivity).
+  assert (Hcc' : Ccomp (sy_m s')).
+  { intros _ Hn. assert (X : In i (occupied (sy_m s'))) by (apply occupied_in_slot; exists p1; rewrite Hsls; exact Hsl').
+    rewrite Hn in X. destruct X. }
+  assert (Hhs : c14_hs g t = sy_handles s') by (unfold c14_hs; cbn; exact Hh).
+  assert (Hdirty : c14_dirty g t = g14_dirty g) by reflexivity.
+  rewrite c14_step_eq. cbn [ts_out t]. cbn zeta. rewrite Hhs, Hdirty.
+  assert (Hr1 : c14_r1 (Z.to_nat (p_max_retry (cf_params c))) g (sy_handles s') (g14_dirty g) t =
+                inl (g14_turns g, None, 0%nat)).
+  { unfold c14_r1. rewrite Hv. destruct (g14_dirty g); reflexivity. }
+  rewrite Hr1.
+  (* the event *)
+  pose proof (proj1 Hlife _ _ Hsl) as Hrl. rewrite Ha in Hrl.
+  assert (Hag : agree (alist_get LOff (g14_life g) addr) p) by (eapply RL_agree; [exact Hrl|exact Ii]).
+  pose proof (rx_agree _ _ _ _ _ Hag Hp) as Hra.
+  destruct (receive_reply_outcome _ _ _ _ Hp) as (Hal & _ & _). pose proof (rx_off _ _ _ Hal) as Hoff.
+  assert (Hidx : index_of_addr (sy_handles s') addr = Some i).
+  { rewrite <- Ha, <- Hap. apply (slot_index_of_addr c Hc s' i p1 I'). rewrite Hsls. exact Hsl'. }
+  assert (Hr2 : exists life', c14_r2 g (sy_handles s') (g14_turns g) t = inl (life', g14_turns g) /\
+                  per_ok lstate LOff RL (sy_m s') (gupd gs i (gstep (gs i) (WReply tg ev))) life').
+  { destruct ev as [e|].
+    - destruct Hra as (l' & Hl & Hag').
+      exists (alist_set (g14_life g) addr l'). split.
+      + rewrite (c14_r2_event g (sy_handles s') (g14_turns g) t addr e (dm_events m1) i l' Hse eq_refl); auto.
+        * destruct e; try reflexivity. cbn beta iota in Hoff. contradiction.
+        * rewrite Hev. reflexivity.
+      + apply (per_ok_set _ _ _ (sy_m s) gs (g14_life g) (sy_m s') _ i addr l' Hlife Hinj); [|exact Hfw|exists p; auto].
+        intros j q' Hq'. rewrite Hsls in Hq'. destruct (Nat.eq_dec j i) as [->|Hne].
+        * rewrite Hsl' in Hq'. inversion Hq'; subst q'. exists p. split; [exact Hsl|]. split; [exact Hap|].
+          split; [intro X; now elim X|]. intros _. split; [apply Hag'|exact Ha].
+        * rewrite Hoth in Hq' by exact Hne. exists q'. split; [exact Hq'|]. split; [reflexivity|].
+          split; [intros _ x Hx; exact Hx|intro X; contradiction].
+    - exists (g14_life g). split; [unfold c14_r2; rewrite Hse; reflexivity|].
+      apply (per_ok_same _ _ _ (sy_m s) gs (g14_life g) (sy_m s') _ Hlife); [|exact Hfw].
+      intros j q' Hq'. rewrite Hsls in Hq'. destruct (Nat.eq_dec j i) as [->|Hne].
+      + rewrite Hsl' in Hq'. inversion Hq'; subst q'. exists p. split; [exact Hsl|]. split; [exact Hap|].
+        intros x Hx. unfold RL in *. apply (rx_allowed_life x (pe_state p) None (pe_state p1) Hx Hal).
+      + rewrite Hoth in Hq' by exact Hne. exists q'. split; [exact Hq'|]. split; [reflexivity|]. intros x Hx; exact Hx. }
+  destruct Hr2 as (life' & -> & Hlife').
+  assert (Haddr : addr = pe_addr p) by (symmetry; exact Ha).
+  apply (c14_tail c s' _ None g life' (sy_handles s') (g14_turns g) None 0%nat (g14_dirty g) t r).
+  - split; [exact I'|]. apply (ginv_frame _ m1); [reflexivity|reflexivity|exact G'].
+  - reflexivity.
+  - exact Hcc'.
+  - exact Hlife'.
+  - reflexivity.
+  - intros da E. discriminate E.
+  - rewrite Hstepcc. intro E. rewrite E in Hcyc. destruct Hcyc as (Hcm & _). split; [reflexivity|].
+    unfold pos_rem. change (dm_cycle (sy_m s')) with (dm_cycle m1). rewrite Hcm. reflexivity.
+  - intro Hd. split.
+    + specialize (HT Hd). rewrite Hr in HT. rewrite (HP addr eq_refl), Haddr in HT.
+      apply (turns_rx (sy_m s) (sy_m s') i r p p1 _ _ _ HT Hfw Hbw Hsl); [rewrite Hsls; exact Hsl'|].
+      intros j Hne. rewrite Hsls. apply Hoth. exact Hne.
+    + rewrite Hstepcc. destruct cc; [apply Hcyc|]. destruct Hcyc as (_ & Hx & _). symmetry. exact Hx.
+Qed.
+
+
+Lemma user_same_put : forall m i p p', slot m i = Some p -> same_ctrl p p' ->
+  user_same m (set_slots m (put_slot (dm_slots m) i p')).
+Proof.
+  intros m i p p' Hs Hsc j. destruct (Nat.eq_dec j i) as [->|Hne].
+  - right. exists p, p'. split; [exact Hs|]. split; [apply (slot_put_same _ _ p' _ Hs)|exact Hsc].
+  - left. apply slot_put_other. intro E; apply Hne; symmetry; exact E.
+Qed.
+
+Lemma user_same_refl : forall m m', (forall j, slot m' j = slot m j) -> user_same m m'.
+Proof. intros m m' H j. left. apply H. Qed.
+
+Lemma c14_sound_step : forall s gs pend g i t s' n,
+  Rel14 c s gs pend g -> model_step s i = Ok (s', t) ->
+  head_ok (p_address (cf_params c)) (sy_handles s) pend t ->
+  exists gs' g', c14_step c g n t = inl g' /\
+                 Rel14 c s' gs' (pend_next_v pend (view_of t)) g' /\ sy_handles s' = hs_next (sy_handles s) t.
+Proof.
+  intros s gs pend g i t s' n HR Hstep Hhead.
+  pose proof HR as (HB & Hh & Hcc & Hlife & HP & HT).
+  destruct (model_trans c Hc s gs pend i t s' HB Hstep Hhead) as (gs' & HB' & Hhs & Hti & Hto & Htop & Hopk & HTr).
+  pose proof HB as [I G]. pose proof HB' as [I' G'].
+  pose proof Hhead as (Hbad & Hview & _).
+  pose proof (co_auto _ Hc) as Hauto.
+  (* every step that does not run the scheduler goes through c14_static *)
+  assert (Hstatic : forall (Hnadd : forall k, ts_in t <> InAdd k),
+            sy_handles s' = sy_handles s -> user_same (sy_m s) (sy_m s') ->
+            pos_rem (sy_m s') = pos_rem (sy_m s) -> dm_cycle (sy_m s') = dm_cycle (sy_m s) ->
+            (view_of t = VOther \/ (exists a, view_of t = VTimeout a) \/ view_of t = VAbandon \/
+             (exists h pdu, view_of t = VSdn h pdu) \/ (view_of t = VNoTx /\ ts_op t = OpStop)) ->
+            step_event t = None -> step_cc t = false ->
+            match ts_out t with OutHang | OutPanic => False | _ => True end ->
+            exists gs' g', c14_step c g n t = inl g' /\
+              Rel14 c s' gs' (pend_next_v pend (view_of t)) g' /\ sy_handles s' = hs_next (sy_handles s) t).
+  { intros Hnadd H1 H2 H3 H4 H5 H6 H7 H8.
+    destruct (c14_static c s gs pend g t s' gs' n HR HB' H1 Hnadd H2 H3 H4 H5 H6 H7 Hto H8) as (g' & Hg1 & Hg2).
+    exists gs', g'. auto. }
+  destruct i as [now hp|now addr wire|now addr| |k|k q|st| |k|k wire|k|k si rd sd dp f1 f2 ext ident|].
+  - (* transmit_telegram *)
+    destruct (step_tx c s now hp s' t I Hauto Hstep) as (m1 & o & Htx & -> & ->).
+    pose proof (tx_view_pend _ _ _ _ _ _ _ _ _ Hhead) as Hp. subst pend.
+    rewrite <- dp_transmit_erase in Htx.
+    destruct (dp_transmit_g (cf_params c) (cf_bufsize c) (sy_m s) now hp) as [[[m1' o'] log]| |] eqn:Hg;
+      cbn [drop_log] in Htx; try discriminate Htx. inversion Htx; subst m1' o'. clear Htx.
+    destruct (dp_transmit_g_cases _ _ _ _ _ _ _ _ Hg) as
+      [(Hop & Hm & -> & _)|[(Hop & _ & _ & Hm & _ & b & w & _ & Hsd & ->)|(Hop & _ & Hrel)]].
+    + apply Hstatic; cbn [ts_in ts_out ts_op sy_m set_m sy_handles];
+        [intros k E; discriminate E|reflexivity|apply user_same_refl; rewrite Hm; reflexivity
+        |rewrite Hm; reflexivity|rewrite Hm; reflexivity
+        |right; right; right; right; split; [reflexivity|rewrite Hm; exact Hop]
+        |unfold step_event; cbn; rewrite Hm; reflexivity|unfold step_cc; cbn; rewrite Hm; reflexivity|exact Logic.I].
+    + pose proof (gc_wire c _ _ _ (co_limits _ Hc) (co_own _ Hc) Hsd) as Hdec.
+      apply Hstatic; cbn [ts_in ts_out ts_op sy_m set_m sy_handles];
+        [intros k E; discriminate E|reflexivity|apply user_same_refl; rewrite Hm; reflexivity
+        |rewrite Hm; reflexivity|rewrite Hm; reflexivity
+        |right; right; right; left; eexists; eexists; eapply view_tx_sdn; [exact Hdec|reflexivity]
+        |unfold step_event; cbn; rewrite Hm; reflexivity|unfold step_cc; cbn; rewrite Hm; reflexivity|exact Logic.I].
+    + destruct (c14_tx c Hc s gs g now hp m1 o log n HR Hop Hrel I') as (gs2 & g' & Hg1 & Hg2).
+      exists gs2, g'. split; [exact Hg1|]. split; [exact Hg2|exact Hhs].
+  - (* receive_reply *)
+    destruct (step_rx c s now addr wire s' t I Hauto Hstep Hbad) as (tg & m1 & Hdec & Hrx & -> & ->).
+    assert (Hv : forall tk obs op, view_of (mkStep (InRx now addr wire) false OutUnit tk obs op) = VReply addr tg)
+      by (intros; eapply view_rx; exact Hdec).
+    rewrite Hv in Hview. destruct Hview as (-> & _).
+    destruct (c14_rx s gs g now addr wire tg m1 n HR Hdec Hrx I') as (gs2 & g' & Hg1 & Hg2).
+    exists gs2, g'. split; [exact Hg1|]. rewrite Hv. cbn [pend_next_v]. split; [exact Hg2|exact Hhs].
+  - (* handle_timeout *)
+    destruct (step_to c s now addr s' t I Hauto Hstep) as (-> & ->).
+    apply Hstatic; cbn [ts_in ts_out ts_op sy_m set_m sy_handles];
+      [intros k E; discriminate E|reflexivity|apply user_same_refl; reflexivity|reflexivity|reflexivity
+      |right; left; exists addr; reflexivity|reflexivity|reflexivity|exact Logic.I].
+  - (* request dropped *)
+    destruct (step_env s InAbandon s' t eq_refl Hstep) as (Hcf & Hm & Hhh & o & -> & Ho).
+    apply Hstatic; cbn [ts_in ts_out ts_op sy_m set_m sy_handles];
+      [intros k E; discriminate E|exact Hhh|apply user_same_refl; rewrite Hm; reflexivity
+      |rewrite Hm; reflexivity|rewrite Hm; reflexivity
+      |right; right; left; reflexivity|reflexivity|reflexivity|destruct o; try contradiction; exact Logic.I].
+  - (* request_diagnostics *)
+    destruct (step_reqdiag s k s' t Hstep Hbad) as (h & m1 & Hhk & Hu & -> & ->).
+    destruct (reqdiag_upd _ _ _ Hu) as (p & Hsl & -> & Hsc).
+    apply Hstatic; cbn [ts_in ts_out ts_op sy_m set_m sy_handles];
+      [intros k0 E; discriminate E|reflexivity|apply (user_same_put _ _ p); assumption
+      |apply pos_rem_user; exists (hd_index h), p, (p_request_diagnostics p); auto|reflexivity
+      |left; reflexivity|reflexivity|reflexivity|exact Logic.I].
+  - (* pi_q write *)
+    destruct (step_writeq s k q s' t Hstep Hbad) as (h & m1 & Hhk & Hu & -> & ->).
+    destruct (writeq_upd _ _ _ _ Hu) as (p & Hsl & -> & Hsc).
+    apply Hstatic; cbn [ts_in ts_out ts_op sy_m set_m sy_handles];
+      [intros k0 E; discriminate E|reflexivity|apply (user_same_put _ _ p); assumption
+      |apply pos_rem_user; exists (hd_index h), p, (set_pi_q p q); auto|reflexivity
+      |left; reflexivity|reflexivity|reflexivity|exact Logic.I].
+  - (* enter_state *)
+    destruct (step_enter s st s' t Hstep) as (-> & o & Ho & ->).
+    apply Hstatic; cbn [ts_in ts_out ts_op sy_m set_m sy_handles];
+      [intros k0 E; discriminate E|reflexivity|apply user_same_refl; reflexivity|reflexivity|reflexivity
+      |left; destruct Ho as [-> | ->]; reflexivity|reflexivity|reflexivity|destruct Ho as [-> | ->]; exact Logic.I].
+  - (* take_last_events *)
+    destruct (step_take c s s' t I Hstep) as (-> & ->).
+    apply Hstatic; cbn [ts_in ts_out ts_op sy_m set_m sy_handles];
+      [intros k0 E; discriminate E|reflexivity|apply user_same_refl; reflexivity|reflexivity|reflexivity
+      |left; reflexivity|reflexivity|reflexivity|exact Logic.I].
+  - (* add *)
+    destruct (step_add s k s' t Hstep Hbad) as (pc0 & m1 & h & Hpc0 & Hdadd & -> & ->).
+    destruct HTr as
+      [Hv Hev Hin Hq
+      |j h0 pdu q q1 g1 q' Hpn Hv Hev Hin
+      |j q q1 g1 q' Hpn Hv Hev Hin
+      |j a tg ev p p1 now w Hpn Hv Hev Hin
+      |j a p Hpn Hv Hev Hin
+      |j k0 p p' Hv Hev Hsl Hsl' Hsc Hg' Hk Hin
+      |k0 j pc Hpn Hin Hv Hev Hpc Hnone Hout Hfree Hnew Hoth Hg' Hfresh];
+      cbn [ts_in] in Hin; try contradiction;
+      try (destruct Hin as (nw & hp & Hin); discriminate Hin); try discriminate Hin;
+      try (destruct Hin as [(Hin & _)|(qq & Hin & _)]; discriminate Hin).
+    subst pend. inversion Hin; subst k0. cbn [ts_out] in Hout. inversion Hout; subst h.
+    exists gs'. rewrite c14_step_eq. cbn [ts_out]. cbn zeta.
+    assert (Ehs : c14_hs g (mkStep (InAdd k) false (OutHandle (mkHandle j (pc_addr pc))) None
+                           (observe (mkSys (sy_conf s) m1 (set_nth (sy_handles s) k (Some (mkHandle j (pc_addr pc)))) (sy_slaves s)))
+                           (dm_op m1)) = set_nth (sy_handles s) k (Some (mkHandle j (pc_addr pc))))
+      by (unfold c14_hs; cbn; rewrite Hh; reflexivity).
+    rewrite Ehs.
+    match goal with |- context [c14_r1 ?mr g ?hs ?d ?tt] =>
+      assert (Er1 : c14_r1 mr g hs d tt = inl (g14_turns g, g14_cur g, g14_sends g)) by reflexivity;
+      assert (Er2 : c14_r2 g hs (g14_turns g) tt = inl (g14_life g, g14_turns g)) by reflexivity
+    end.
+    rewrite Er1, Er2.
+    destruct (dp_add_post _ _ _ _ Hdadd) as (_ & _ & _ & _ & _ & _ & A3 & _).
+    match goal with |- exists g', ?X = inl g' /\ _ =>
+      destruct (c14_tail c _ gs' None g (g14_life g) (set_nth (sy_handles s) k (Some (mkHandle j (pc_addr pc))))
+                  (g14_turns g) (g14_cur g) (g14_sends g) true
+                  (mkStep (InAdd k) false (OutHandle (mkHandle j (pc_addr pc))) None
+                     (observe (mkSys (sy_conf s) m1 (set_nth (sy_handles s) k (Some (mkHandle j (pc_addr pc)))) (sy_slaves s)))
+                     (dm_op m1)) [] HB') as (g' & Hg1 & Hg2)
+    end.
+    + reflexivity.
+    + cbn [sy_m]. intros E Hn. rewrite A3 in E. specialize (Hcc E).
+      destruct (occupied (sy_m s)) as [|j0 r0] eqn:Eo; [now elim Hcc|].
+      assert (Hj0 : In j0 (occupied (sy_m s))) by (rewrite Eo; left; reflexivity).
+      apply occupied_in_slot in Hj0. destruct Hj0 as (p0 & Hp0).
+      assert (Hne : j0 <> j) by (intro X; subst j0; rewrite Hfree in Hp0; discriminate Hp0).
+      assert (X : In j0 (occupied m1)) by (apply occupied_in_slot; exists p0; cbn [sy_m] in Hoth; rewrite Hoth by exact Hne; exact Hp0).
+      rewrite Hn in X. destruct X.
+    + cbn [sy_m] in *. rewrite Hg'. apply (per_ok_add _ _ _ (sy_m s) gs (g14_life g) m1 j (periph_of_conf pc)); auto.
+      reflexivity.
+    + reflexivity.
+    + intros da E. discriminate E.
+    + intro E. discriminate E.
+    + intro E. discriminate E.
+    + exists g'. split; [exact Hg1|]. split; [exact Hg2|exact Hhs].
+  - destruct (step_env s (InSlave k wire) s' t eq_refl Hstep) as (Hcf & Hm & Hhh & o & -> & Ho).
+    apply Hstatic; cbn [ts_in ts_out ts_op sy_m set_m sy_handles];
+      [intros k0 E; discriminate E|exact Hhh|apply user_same_refl; rewrite Hm; reflexivity
+      |rewrite Hm; reflexivity|rewrite Hm; reflexivity
+      |left; destruct o; try contradiction; reflexivity|reflexivity|reflexivity
+      |destruct o; try contradiction; exact Logic.I].
+  - destruct (step_env s (InPower k) s' t eq_refl Hstep) as (Hcf & Hm & Hhh & o & -> & Ho).
+    apply Hstatic; cbn [ts_in ts_out ts_op sy_m set_m sy_handles];
+      [intros k0 E; discriminate E|exact Hhh|apply user_same_refl; rewrite Hm; reflexivity
+      |rewrite Hm; reflexivity|rewrite Hm; reflexivity
+      |left; destruct o; try contradiction; reflexivity|reflexivity|reflexivity
+      |destruct o; try contradiction; exact Logic.I].
+  - destruct (step_env s (InSlaveSet k si rd sd dp f1 f2 ext ident) s' t eq_refl Hstep) as (Hcf & Hm & Hhh & o & -> & Ho).
+    apply Hstatic; cbn [ts_in ts_out ts_op sy_m set_m sy_handles];
+      [intros k0 E; discriminate E|exact Hhh|apply user_same_refl; rewrite Hm; reflexivity
+      |rewrite Hm; reflexivity|rewrite Hm; reflexivity
+      |left; destruct o; try contradiction; reflexivity|reflexivity|reflexivity
+      |destruct o; try contradiction; exact Logic.I].
+  - destruct (step_env s InClean s' t eq_refl Hstep) as (Hcf & Hm & Hhh & o & -> & Ho).
+    apply Hstatic; cbn [ts_in ts_out ts_op sy_m set_m sy_handles];
+      [intros k0 E; discriminate E|exact Hhh|apply user_same_refl; rewrite Hm; reflexivity
+      |rewrite Hm; reflexivity|rewrite Hm; reflexivity
+      |left; destruct o; try contradiction; reflexivity|reflexivity|reflexivity
+      |destruct o; try contradiction; exact Logic.I].
+Qed.
+
+Theorem c14_oracle_sound : forall s0 ins s' tr,
+  init_sys c = Ok s0 -> model_run s0 ins = Ok (s', tr) ->
+  contract_ok c tr = true -> driver_ok (sy_handles s0) tr = true ->
+  c14_monitor c (sy_handles s0) tr = None.
+Proof.
+  intros s0 ins s' tr Hinit Hrun Hct Hdr.
+  destruct (init_invariants c s0 Hc Hinit) as (I0 & G0 & Hop0 & Hcy0 & Hfresh).
+  unfold c14_monitor.
+  apply (sound_generic c c14g (c14_step c) (Rel14 c) c14_sound_step
+           ins s0 (fun _ => ghost0) None (mkC14g [] (sy_handles s0) [] None [] 0 false) s' tr 0%nat); auto.
+  split; [split; assumption|]. cbn [g14_handles g14_life g14_cur g14_dirty g14_turns g14_sends g14_due].
+  split; [reflexivity|]. split; [intro E; rewrite Hcy0 in E; discriminate E|]. split.
+  - split.
+    + intros i p Hp. destruct (Hfresh _ _ Hp) as (k & pc & _ & ->). reflexivity.
+    + intros a _. reflexivity.
+  - split; [intros da E; discriminate E|]. intros _. apply turns_fresh.
+    + apply pos_rem_zero. exact Hcy0.
+    + intros a [].
+Qed.
+
+End C14c.
+
